@@ -7,38 +7,41 @@ Ltac gsimpl :=
        emit set_cs set_sock set_regw set_outq set_ping set_incb set_proto set_nsock set_sched set_scr
        push_front obs fst snd].
 
-Lemma nofail_tail o l : existsb is_ofail (o :: l) = false -> existsb is_ofail l = false.
-Proof. cbn. intros H. apply orb_false_iff in H. apply H. Qed.
-
 (* ---- popping scripts under scr_ok ---- *)
 Lemma pop_list_forall {A} (f : list A -> bool) (q : list (list A)) : forallb f q = true -> f [] = true ->
   f (fst (pop_list q)) = true /\ forallb f (snd (pop_list q)) = true.
 Proof. destruct q as [|x q]; cbn; [auto|]. intros H _. apply andb_true_iff in H. exact H. Qed.
 
-Lemma scr_ok_pop si s : scr_ok (scr s) = true -> scr_ok (scr (snd (pop_script si s))) = true.
+Lemma scr_ok_pop ext si s : scr_ok ext (scr s) = true -> scr_ok ext (scr (snd (pop_script si s))) = true.
 Proof.
   unfold scr_ok. intros H. repeat (apply andb_true_iff in H as [H ?]).
   destruct si; unfold pop_script;
     match goal with |- context [pop_list ?l] => destruct (pop_list l) eqn:E end;
     cbn [snd scr set_scr q_open q_discopen q_close q_unregw q_regw];
     repeat (apply andb_true_iff; split); try assumption.
-  - pose proof (pop_list_forall is_nil _ H eq_refl) as [_ X]. rewrite E in X. exact X.
+  - destruct ext.
+    + pose proof (pop_list_noreconn _ H) as [_ X]. rewrite E in X. exact X.
+    + pose proof (pop_list_forall is_nil _ H eq_refl) as [_ X]. rewrite E in X. exact X.
   - pose proof (pop_list_forall (forallb is_pubsub) _ H2 eq_refl) as [_ X]. rewrite E in X. exact X.
   - pose proof (pop_list_noreconn _ H0) as [_ X]. rewrite E in X. exact X.
   - pose proof (pop_list_forall (forallb is_pubsub) _ H1 eq_refl) as [_ X]. rewrite E in X. exact X.
-  - pose proof (pop_list_noreconn _ H3) as [_ X]. rewrite E in X. exact X.
 Qed.
 
-Lemma scr_ok_regw q : scr_ok q = true -> queue_noreconn (q_regw q) = true.
+Lemma scr_ok_regw ext q : scr_ok ext q = true -> queue_noreconn (q_regw q) = true.
 Proof. unfold scr_ok. intros H. repeat (apply andb_true_iff in H as [H ?]). assumption. Qed.
 
-Lemma scr_ok_pop_open s : scr_ok (scr s) = true -> fst (pop_script SiOpen s) = [].
+Lemma scr_ok_pop_open_direct s : scr_ok false (scr s) = true -> fst (pop_script SiOpen s) = [].
 Proof.
   unfold scr_ok. intros H. repeat (apply andb_true_iff in H as [H ?]). unfold pop_script.
   destruct (q_open (scr s)) as [|x q]; cbn; [reflexivity|]. cbn in H. apply andb_true_iff in H as [H _].
   destruct x; [reflexivity|discriminate].
 Qed.
-Lemma scr_ok_pop_teardown si s : (si = SiClose \/ si = SiUnregW) -> scr_ok (scr s) = true ->
+Lemma scr_ok_pop_open_ext s : scr_ok true (scr s) = true -> script_noreconn (fst (pop_script SiOpen s)) = true.
+Proof.
+  unfold scr_ok. intros H. repeat (apply andb_true_iff in H as [H ?]). unfold pop_script.
+  pose proof (pop_list_noreconn _ H) as [X _]. destruct (pop_list (q_open (scr s))). exact X.
+Qed.
+Lemma scr_ok_pop_teardown ext si s : (si = SiClose \/ si = SiUnregW) -> scr_ok ext (scr s) = true ->
   forallb is_pubsub (fst (pop_script si s)) = true.
 Proof.
   unfold scr_ok. intros Hsi H. repeat (apply andb_true_iff in H as [H ?]). unfold pop_script.
@@ -46,17 +49,12 @@ Proof.
   - pose proof (pop_list_forall (forallb is_pubsub) _ H2 eq_refl) as [X _]. destruct (pop_list (q_close (scr s))). exact X.
   - pose proof (pop_list_forall (forallb is_pubsub) _ H1 eq_refl) as [X _]. destruct (pop_list (q_unregw (scr s))). exact X.
 Qed.
-Lemma scr_ok_pop_discopen s : scr_ok (scr s) = true -> script_noreconn (fst (pop_script SiDiscOpen s)) = true.
-Proof.
-  unfold scr_ok. intros H. repeat (apply andb_true_iff in H as [H ?]). unfold pop_script.
-  pose proof (pop_list_noreconn _ H3) as [X _]. destruct (pop_list (q_discopen (scr s))). exact X.
-Qed.
 
-Lemma scr_ok_quiet s s' : quiet_rel s s' -> scr_ok (scr s) = true -> scr_ok (scr s') = true.
+Lemma scr_ok_quiet ext s s' : quiet_rel s s' -> scr_ok ext (scr s) = true -> scr_ok ext (scr s') = true.
 Proof.
-  intros Q. destruct (qr_scr _ _ Q) as (_ & _ & A3 & A4 & A5 & _ & A7 & A8).
+  intros Q. destruct (qr_scr _ _ Q) as (_ & _ & A3 & A4 & A5 & _ & _ & A8).
   unfold scr_ok. intros H. repeat (apply andb_true_iff in H as [H ?]).
-  rewrite A3, A4, A5, A7, H, H3, H2, H1, (A8 H0). reflexivity.
+  rewrite A3, A4, A5, H, H2, H1, (A8 H0). reflexivity.
 Qed.
 
 Definition Rel (s s' : st) : Prop := sock s' = None -> (sock s = None /\ outq s' = outq s) \/ outq s' = [].
@@ -80,39 +78,46 @@ Proof.
   - right. rewrite C0. exact R1.
 Qed.
 
+(* the socket after nested calls: the same one, or one created later *)
+Definition SockRel (s s' : st) : Prop :=
+  nsock s <= nsock s' /\ forall x, sock s' = Some x -> sock s = Some x \/ nsock s < x.
+Lemma SockRel_refl s : SockRel s s.
+Proof. split; [lia|]. intros x H. left. exact H. Qed.
+Lemma SockRel_trans s1 s2 s3 : SockRel s1 s2 -> SockRel s2 s3 -> SockRel s1 s3.
+Proof.
+  intros [A1 A2] [B1 B2]. split; [lia|]. intros x H. destruct (B2 x H) as [B|B]; [|right; lia].
+  destruct (A2 x B) as [A|A]; [left; exact A|right; exact A].
+Qed.
+Lemma SockRel_quiet s s' : quiet_rel s s' -> SockRel s s'.
+Proof. intros Q. split; [rewrite (qr_nsock _ _ Q); lia|]. intros x H. left. rewrite <- (qr_sock _ _ Q). exact H. Qed.
+
 Section C10.
 Variable c : cfg.
 Variable k0 : k10.
-Variable nf : bool.      (* this operation is a loop_read in direct-write mode: no failing send scheduled *)
 Notation KS10 := (KS k10_ev k0).
-Definition nofail (s : st) : Prop := nf = true -> existsb is_ofail (sched s) = false.
-Definition Pre (w : bool) (s : st) : Prop := V w s (KS10 s) /\ scr_ok (scr s) = true /\ nofail s.
+Notation sok := (scr_ok (c_ext c)).
+Definition Pre (w : bool) (s : st) : Prop := V w s (KS10 s) /\ sok (scr s) = true.
 
 Lemma Pre_frame w s s' : tr s' = tr s -> sock s' = sock s -> cs s' = cs s -> outq s' = outq s ->
-  scr s' = scr s -> sched s' = sched s -> Pre w s -> Pre w s'.
+  scr s' = scr s -> nsock s' = nsock s -> Pre w s -> Pre w s'.
 Proof.
-  intros Ht Hs Hc Hq Hscr Hsch (HV & HS & HF). unfold Pre, nofail. rewrite (KS_frame _ _ _ _ Ht), Hscr, Hsch.
-  split; [eapply V_frame; eassumption|]. split; assumption.
+  intros Ht Hs Hc Hq Hscr Hn (HV & HS). unfold Pre. rewrite (KS_frame _ _ _ _ Ht), Hscr.
+  split; [eapply V_frame; eassumption|assumption].
 Qed.
 Lemma Pre_emit w e s : inert10 e = true -> Pre w s -> Pre w (emit e s).
 Proof.
-  intros He (HV & HS & HF). split; [|split; assumption]. rewrite KS_emit.
+  intros He (HV & HS). split; [|assumption]. rewrite KS_emit.
   apply V_frame with (s := s); try reflexivity. apply V_inert; assumption.
 Qed.
 Lemma Pre_obs w x s : Pre w s -> Pre w (obs x s).
 Proof.
-  intros (HV & HS & HF). split; [|split; assumption]. unfold obs. rewrite KS_emit.
+  intros (HV & HS). split; [|assumption]. unfold obs. rewrite KS_emit.
   apply V_frame with (s := s); try reflexivity. apply V_obs. exact HV.
-Qed.
-Lemma Pre_set_sched w l s : Pre w s -> (nf = true -> existsb is_ofail l = false) -> Pre w (set_sched l s).
-Proof.
-  intros (HV & HS & HF) Hl. split; [|split; [exact HS|exact Hl]].
-  rewrite (KS_frame _ _ s (set_sched l s)) by reflexivity. apply V_frame with (s := s); try reflexivity. exact HV.
 Qed.
 
 Variable nested : list acall -> st -> st.
 Hypothesis Hn : forall sc s, NW c s -> Pre true s ->
-  Pre true (nested sc s) /\ incb (nested sc s) = incb s /\ Rel s (nested sc s).
+  Pre true (nested sc s) /\ incb (nested sc s) = incb s /\ Rel s (nested sc s) /\ SockRel s (nested sc s).
 Hypothesis Hq : forall sc s, NW c s -> script_noreconn sc = true ->
   queue_noreconn (q_regw (scr s)) = true -> quiet_rel s (nested sc s).
 Hypothesis Ht : forall sc s, forallb is_pubsub sc = true -> sock s = None -> teardown_rel_ps s (nested sc s).
@@ -128,67 +133,89 @@ Proof.
   rewrite E.
   pose proof (Pre_obs true (WCb si) _ HP) as HP1.
   pose proof (pop_script_frame si (obs (WCb si) (emit ev s))) as F.
-  pose proof (scr_ok_pop si (obs (WCb si) (emit ev s)) (proj1 (proj2 HP1))) as HS.
+  pose proof (scr_ok_pop (c_ext c) si (obs (WCb si) (emit ev s)) (proj2 HP1)) as HS.
   destruct (pop_script si (obs (WCb si) (emit ev s))) as [sc s2]. cbn [fst snd] in *.
   destruct F as (Fcs & Fsock & Fregw & Foutq & Fping & Fincb & Fproto & Fnsock & Fsched & Ftr).
   gsimpl.
   assert (HP2 : Pre true s2).
-  { destruct HP1 as (HV & _ & HF). split; [|split; [exact HS|]].
-    - rewrite (KS_frame _ _ _ _ Ftr). eapply V_frame; [exact Fsock|exact Fcs|exact Foutq|exact HV].
-    - unfold nofail in *. rewrite Fsched. exact HF. }
+  { destruct HP1 as (HV & _). split; [|exact HS].
+    rewrite (KS_frame _ _ _ _ Ftr). eapply V_frame; [exact Fsock|exact Fcs|exact Foutq|exact Fnsock|exact HV]. }
   destruct sc as [|a sc].
   - split; [exact HP2|]. split; [exact Fincb|]. intros H. left. rewrite Fsock in H. split; [exact H|exact Foutq].
   - set (s3 := set_incb (held || incb s2) s2).
     assert (HP3 : Pre true s3) by (eapply Pre_frame; [| | | | | |exact HP2]; reflexivity).
     assert (Hnw : NW c s3).
     { destruct held; [right; reflexivity|left; apply Hx; reflexivity]. }
-    destruct (Hn (a :: sc) s3 Hnw HP3) as (N1 & N2 & N3).
+    destruct (Hn (a :: sc) s3 Hnw HP3) as (N1 & N2 & N3 & _).
     split; [eapply Pre_frame; [| | | | | |exact N1]; reflexivity|]. split; [ssimpl; exact Fincb|].
     eapply Rel_frame with (s1' := s3) (s2 := nested (a :: sc) s3); try reflexivity; try exact N3.
     + unfold s3. ssimpl. exact Fsock.
     + intros _. unfold s3. ssimpl. exact Foutq.
 Qed.
 
-(* on_socket_open right after the socket was created: its script is empty (exclusion D) *)
+(* on_socket_open right after the socket was created: no script in direct-write mode (exclusion D), a
+   reconnect()-free one in external-loop mode, which only queues behind the CONNECT to come *)
 Lemma run_site_open ev s : Pre false (emit ev s) ->
   let s' := run_site nested SiOpen false ev s in
-  Pre false s' /\ incb s' = incb s /\ sock s' = sock s /\ cs s' = cs s /\ regw s' = regw s.
+  Pre false s' /\ incb s' = incb s /\ sock s' = sock s /\ nsock s' = nsock s.
 Proof.
   intros HP. unfold run_site. cbn [andb].
   pose proof (Pre_obs false (WCb SiOpen) _ HP) as HP1.
   pose proof (pop_script_frame SiOpen (obs (WCb SiOpen) (emit ev s))) as F.
-  pose proof (scr_ok_pop SiOpen (obs (WCb SiOpen) (emit ev s)) (proj1 (proj2 HP1))) as HS.
-  pose proof (scr_ok_pop_open (obs (WCb SiOpen) (emit ev s)) (proj1 (proj2 HP1))) as Hnil.
-  destruct (pop_script SiOpen (obs (WCb SiOpen) (emit ev s))) as [sc s2]. cbn [fst snd] in *. subst sc.
+  pose proof (scr_ok_pop (c_ext c) SiOpen (obs (WCb SiOpen) (emit ev s)) (proj2 HP1)) as HS.
+  assert (Hsc : (c_ext c = false /\ fst (pop_script SiOpen (obs (WCb SiOpen) (emit ev s))) = []) \/
+                (c_ext c = true /\ script_noreconn (fst (pop_script SiOpen (obs (WCb SiOpen) (emit ev s)))) = true)).
+  { destruct HP1 as (_ & X). destruct (c_ext c); [right|left]; (split; [reflexivity|]).
+    - apply scr_ok_pop_open_ext. exact X.
+    - apply scr_ok_pop_open_direct. exact X. }
+  destruct (pop_script SiOpen (obs (WCb SiOpen) (emit ev s))) as [sc s2]. cbn [fst snd] in *.
   destruct F as (Fcs & Fsock & Fregw & Foutq & Fping & Fincb & Fproto & Fnsock & Fsched & Ftr).
-  gsimpl. split; [|repeat split; assumption].
-  destruct HP1 as (HV & _ & HF). split; [|split; [exact HS|]].
-  - rewrite (KS_frame _ _ _ _ Ftr). eapply V_frame; [exact Fsock|exact Fcs|exact Foutq|exact HV].
-  - unfold nofail in *. rewrite Fsched. exact HF.
+  gsimpl.
+  assert (HP2 : Pre false s2).
+  { destruct HP1 as (HV & _). split; [|exact HS].
+    rewrite (KS_frame _ _ _ _ Ftr). eapply V_frame; [exact Fsock|exact Fcs|exact Foutq|exact Fnsock|exact HV]. }
+  destruct sc as [|a sc]; [split; [exact HP2|]; split; [exact Fincb|]; split; assumption|].
+  destruct Hsc as [[_ X]|[Ex Hnr]]; [discriminate X|].
+  set (s3 := set_incb (false || incb s2) s2).
+  assert (Q : quiet_rel s3 (nested (a :: sc) s3)).
+  { apply Hq; [left; exact Ex|exact Hnr|apply (scr_ok_regw (c_ext c)); exact HS]. }
+  destruct HP2 as (V2 & _).
+  pose proof (V_quiet false [] s3 (nested (a :: sc) s3) k0 Q) as X. cbn [app] in X.
+  assert (V3 : V false (nested (a :: sc) s3) (KS10 (nested (a :: sc) s3))).
+  { eapply V_frame; [| | | |apply X]; try reflexivity.
+    rewrite (KS_frame _ _ s2 s3) by reflexivity. eapply V_frame; [| | | |exact V2]; reflexivity. }
+  split; [split|].
+  - rewrite (KS_frame _ _ (nested (a :: sc) s3) (set_incb (incb s2) (nested (a :: sc) s3))) by reflexivity.
+    eapply V_frame; [| | | |exact V3]; reflexivity.
+  - ssimpl. eapply scr_ok_quiet; [exact Q|exact HS].
+  - ssimpl. split; [exact Fincb|]. rewrite (qr_sock _ _ Q), (qr_nsock _ _ Q). unfold s3. ssimpl. split; assumption.
 Qed.
 
 (* a callback invocation while no socket is held (on_socket_close / on_socket_unregister_write in
-   _sock_close): its script only records publish()/subscribe() calls refused with NO_CONN *)
+   _sock_close): its script only records publish()/subscribe() calls refused with NO_CONN.  The
+   observation at its entry is harmless: the state is not connected, or the connection is being replaced *)
 Record tear (s s' : st) : Prop := mkTear {
   t_ks : KS10 s' = KS10 s; t_sock : sock s' = sock s; t_cs : cs s' = cs s; t_outq : outq s' = outq s;
   t_regw : regw s' = regw s; t_incb : incb s' = incb s; t_sched : sched s' = sched s;
   t_ping : ping s' = ping s; t_proto : proto s' = proto s; t_nsock : nsock s' = nsock s;
-  t_scr : scr_ok (scr s) = true -> scr_ok (scr s') = true
+  t_scr : sok (scr s) = true -> sok (scr s') = true
 }.
 Lemma tear_trans s1 s2 s3 : tear s1 s2 -> tear s2 s3 -> tear s1 s3.
 Proof. intros [] []. constructor; try congruence. auto. Qed.
 
+Definition tear_ok (s : st) : Prop := is_connected s = false \/ k1_repl (b1 (KS10 s)) = true.
+
 Lemma run_site_tear si ev s : (si = SiClose \/ si = SiUnregW) -> inert10 ev = true -> sock s = None ->
-  scr_ok (scr s) = true -> tear s (run_site nested si false ev s).
+  sok (scr s) = true -> tear_ok s -> tear s (run_site nested si false ev s).
 Proof.
-  intros Hsi Hev Hs HS. unfold run_site. cbn [andb].
+  intros Hsi Hev Hs HS Hok. unfold run_site. cbn [andb].
   set (s1 := obs (WCb si) (emit ev s)).
   assert (T1 : tear s s1).
-  { constructor; try reflexivity; [|auto]. unfold s1, obs. rewrite KS_emit, k10_inert, KS_emit, k10_inert; [reflexivity|exact Hev|].
-    cbn. destruct Hsi as [-> | ->]; reflexivity. }
+  { constructor; try reflexivity; [|auto]. unfold s1, obs. rewrite KS_emit, KS_emit, (k10_inert _ ev Hev).
+    apply k10_obs_tear; [destruct Hsi as [-> | ->]; reflexivity|exact Hok]. }
   pose proof (pop_script_frame si s1) as F.
-  pose proof (scr_ok_pop si s1 HS) as HS2.
-  pose proof (scr_ok_pop_teardown si s1 Hsi HS) as Hps.
+  pose proof (scr_ok_pop (c_ext c) si s1 HS) as HS2.
+  pose proof (scr_ok_pop_teardown (c_ext c) si s1 Hsi HS) as Hps.
   destruct (pop_script si s1) as [sc s2]. cbn [fst snd] in *.
   destruct F as (Fcs & Fsock & Fregw & Foutq & Fping & Fincb & Fproto & Fnsock & Fsched & Ftr).
   assert (T2 : tear s1 s2).
@@ -208,56 +235,65 @@ Proof.
     exact EK.
 Qed.
 
+Lemma tear_ok_tear s s' : tear s s' -> tear_ok s -> tear_ok s'.
+Proof. intros [] [A|A]; [left; unfold is_connected in *; rewrite t_cs0; exact A|right; rewrite t_ks0; exact A]. Qed.
+
 (* _call_socket_unregister_write(sock) inside _sock_close *)
-Lemma call_unregw_tear id s : sock s = None -> scr_ok (scr s) = true ->
+Lemma call_unregw_tear id s : sock s = None -> sok (scr s) = true -> tear_ok s ->
   let s' := call_unregw c nested (Some id) s in
-  KS10 s' = KS10 s /\ sock s' = None /\ cs s' = cs s /\ outq s' = outq s /\ incb s' = incb s /\
-  sched s' = sched s /\ ping s' = ping s /\ proto s' = proto s /\ nsock s' = nsock s /\
-  regw s' = false /\ scr_ok (scr s') = true.
+  tear (set_regw false s) s' \/ (regw s = false /\ s' = s).
 Proof.
-  intros Hs HS. unfold call_unregw. destruct (regw s) eqn:Er; cbn [negb].
-  2:{ repeat split; try assumption; reflexivity. }
-  destruct (c_ext c).
-  - destruct (run_site_tear SiUnregW (UnregW id) (set_regw false s) (or_intror eq_refl) eq_refl Hs HS) as [].
-    ssimpl. repeat split; try congruence; auto. all: try (rewrite t_ks0; reflexivity).
-  - ssimpl. repeat split; try assumption; reflexivity.
+  intros Hs HS Hok. unfold call_unregw. destruct (regw s) eqn:Er; cbn [negb]; [left|right; auto].
+  remember (c_ext c) as bx eqn:Ex in |- *; destruct bx.
+  - apply run_site_tear; [right; reflexivity|reflexivity|exact Hs|exact HS|].
+    destruct Hok as [A|A]; [left; exact A|right; exact A].
+  - constructor; auto.
 Qed.
 
 (* _sock_close on a held socket: besides ConnEnd nothing the checkers see *)
-Lemma sock_close_char r id s : sock s = Some id -> scr_ok (scr s) = true ->
+Lemma sock_close_char r id s : sock s = Some id -> sok (scr s) = true ->
+  (is_replaced r = true \/ is_connected s = false) ->
   let s' := sock_close c nested r s in
   KS10 s' = k10_ev (KS10 s) (ConnEnd id r) /\ sock s' = None /\ cs s' = cs s /\ outq s' = outq s /\
   incb s' = incb s /\ sched s' = sched s /\ ping s' = ping s /\ proto s' = proto s /\ nsock s' = nsock s /\
-  regw s' = false /\ scr_ok (scr s') = true.
+  regw s' = false /\ sok (scr s') = true.
 Proof.
-  intros Hs HS. unfold sock_close. rewrite Hs.
+  intros Hs HS Hr. unfold sock_close. rewrite Hs.
   set (s1 := emit (ConnEnd id r) (set_sock None s)).
   assert (E1 : KS10 s1 = k10_ev (KS10 s) (ConnEnd id r)).
   { unfold s1. rewrite KS_emit. rewrite (KS_frame _ _ s (set_sock None s)) by reflexivity. reflexivity. }
-  destruct (call_unregw_tear id s1 eq_refl HS) as (A1 & A2 & A3 & A4 & A5 & A6 & A7 & A8 & A9 & A10 & A11).
+  assert (Hok1 : tear_ok s1).
+  { destruct Hr as [A|A]; [right; rewrite E1, k10_connend_repl; exact A|left; exact A]. }
+  assert (T2 : let s2 := call_unregw c nested (Some id) s1 in
+               KS10 s2 = KS10 s1 /\ sock s2 = None /\ cs s2 = cs s /\ outq s2 = outq s /\ incb s2 = incb s /\
+               sched s2 = sched s /\ ping s2 = ping s /\ proto s2 = proto s /\ nsock s2 = nsock s /\
+               regw s2 = false /\ sok (scr s2) = true /\ tear_ok s2).
+  { destruct (call_unregw_tear id s1 eq_refl HS Hok1) as [T|[Er ->]].
+    - pose proof (tear_ok_tear _ _ T Hok1) as X. destruct T. ssimpl. repeat split; try congruence; auto.
+    - repeat split; auto. }
   set (s2 := call_unregw c nested (Some id) s1) in *.
-  assert (B : cs s1 = cs s /\ outq s1 = outq s /\ incb s1 = incb s /\ sched s1 = sched s /\ ping s1 = ping s /\
-              proto s1 = proto s /\ nsock s1 = nsock s) by (repeat split; reflexivity).
-  destruct B as (B1 & B2 & B3 & B4 & B5 & B6 & B7).
+  destruct T2 as (A1 & A2 & A3 & A4 & A5 & A6 & A7 & A8 & A9 & A10 & A11 & A12).
   destruct (c_sockcb c).
-  - destruct (run_site_tear SiClose (SockClose id) s2 (or_introl eq_refl) eq_refl A2 A11) as [].
+  - destruct (run_site_tear SiClose (SockClose id) s2 (or_introl eq_refl) eq_refl A2 A11 A12) as [].
     repeat split; try congruence; auto.
   - repeat split; try congruence.
 Qed.
 
-
 (* _call_socket_register_write *)
+Lemma call_regw_Q s : sok (scr s) = true -> quiet_rel s (call_regw c nested s).
+Proof.
+  intros HS. destruct (Bool.bool_dec (c_ext c) true) as [Ex|Ex].
+  - apply call_regw_quiet; [exact Hq|left; exact Ex|apply (scr_ok_regw (c_ext c)); exact HS].
+  - apply not_true_is_false in Ex. unfold call_regw. destruct (sock s) eqn:Es; [|apply quiet_refl].
+    destruct (regw s) eqn:Er; [apply quiet_refl|]. rewrite Ex.
+    apply quiet_frame; try reflexivity; ssimpl; try reflexivity; congruence.
+Qed.
+
 Lemma call_regw_N s : Pre true s ->
   let s' := call_regw c nested s in
   Pre true s' /\ incb s' = incb s /\ quiet_rel s s'.
 Proof.
-  intros HP.
-  assert (Q : quiet_rel s (call_regw c nested s)).
-  { destruct (Bool.bool_dec (c_ext c) true) as [Ex|Ex].
-    - apply call_regw_quiet; [exact Hq|left; exact Ex|apply scr_ok_regw; apply HP].
-    - apply not_true_is_false in Ex. unfold call_regw. destruct (sock s) eqn:Es; [|apply quiet_refl].
-      destruct (regw s) eqn:Er; [apply quiet_refl|]. rewrite Ex.
-      apply quiet_frame; try reflexivity; ssimpl; try reflexivity; congruence. }
+  intros HP. pose proof (call_regw_Q s (proj2 HP)) as Q.
   split; [|split; [exact (qr_incb _ _ Q)|exact Q]].
   unfold call_regw in *. destruct (sock s) as [id|] eqn:Es; [|exact HP].
   destruct (regw s) eqn:Er; [exact HP|].
@@ -279,509 +315,572 @@ Proof.
   - split; [exact A|exact B].
 Qed.
 
-(* a connection ends for a reason other than replacement: close, state, on_disconnect *)
-Lemma close_lost r rc fb id s : Pre true s -> sock s = Some id -> incb s = false ->
+(* a connection ends for a reason other than replacement: state, close, on_disconnect *)
+Lemma lost_N r rc fb id s : Pre true s -> sock s = Some id -> incb s = false ->
   is_replaced r = false -> (fb = false -> rc <> 0) ->
-  let s' := fst (lost_tail nested rc fb (sock_close c nested r s)) in
+  let s' := fst (lost c nested r rc fb s) in
   Pre true s' /\ incb s' = false.
 Proof.
-  intros (HV & HS & HF) Hs Hi Hr Hrc.
-  destruct (sock_close_char r id s Hs HS) as (A1 & A2 & A3 & A4 & A5 & A6 & A7 & A8 & A9 & A10 & A11).
-  set (s1 := sock_close c nested r s) in *.
-  unfold lost_tail.
-  assert (Ed : disc_state s1 = disc_state s) by (unfold disc_state; rewrite A3; reflexivity).
-  assert (G : forall x rc', (is_connected (set_cs x s1) = false) ->
-              (fb = true \/ (rc' =? 0) = disc_state s) ->
-              let s' := do_on_disconnect nested rc' fb (set_cs x s1) in Pre true s' /\ incb s' = false).
-  { intros x rc' Hx Hcond. unfold do_on_disconnect, has_sock. ssimpl. rewrite A2.
-    destruct (run_site_N SiDisconnect true (CbDisconnect rc' fb) (set_cs x s1)) as (B1 & B2 & _).
-    - intros _. ssimpl. congruence.
+  intros (HV & HS) Hs Hi Hr Hrc. unfold lost.
+  assert (G : forall x rc', is_connected (set_cs x s) = false -> (fb = true \/ (rc' =? 0) = disc_state s) ->
+              let s' := do_on_disconnect nested rc' fb (sock_close c nested r (set_cs x s)) in Pre true s' /\ incb s' = false).
+  { intros x rc' Hx Hcond.
+    destruct (sock_close_char r id (set_cs x s) Hs HS (or_intror Hx)) as (A1 & A2 & A3 & A4 & A5 & A6 & A7 & A8 & A9 & A10 & A11).
+    set (s1 := sock_close c nested r (set_cs x s)) in *.
+    unfold do_on_disconnect, has_sock. rewrite A2.
+    destruct (run_site_N SiDisconnect true (CbDisconnect rc' fb) s1) as (B1 & B2 & _).
+    - intros _. rewrite A5. exact Hi.
     - discriminate.
-    - split; [|split].
-      + rewrite KS_emit. rewrite (KS_frame _ _ s1 (set_cs x s1)) by reflexivity. rewrite A1.
-        eapply V_end_lost; [exact HV|exact Hs|exact Hr|exact Hcond|ssimpl; exact A2|exact Hx].
-      + ssimpl. exact A11.
-      + unfold nofail in *. ssimpl. rewrite A6. exact HF.
-    - split; [exact B1|]. rewrite B2. ssimpl. congruence. }
-  rewrite Ed. destruct (disc_state s) eqn:Eds; cbn [fst].
+    - split; [|ssimpl; exact A11].
+      rewrite KS_emit, A1. rewrite (KS_frame _ _ s (set_cs x s)) by reflexivity.
+      eapply V_end_lost; [exact HV|exact Hs|exact Hr|exact Hcond|ssimpl; exact A2|].
+      unfold is_connected in *. ssimpl. rewrite A3. exact Hx.
+    - split; [exact B1|]. rewrite B2, A5. exact Hi. }
+  destruct (disc_state s) eqn:Eds; cbn [fst].
   - apply G; [reflexivity|]. destruct fb; [left; reflexivity|right; reflexivity].
   - apply G; [reflexivity|]. destruct fb; [left; reflexivity|right]. apply Z.eqb_neq. apply Hrc. reflexivity.
 Qed.
 
 Lemma loop_rc_handle_N rc id s : Pre true s -> sock s = Some id -> incb s = false -> rc > 0 ->
   let s' := fst (loop_rc_handle c nested rc s) in Pre true s' /\ incb s' = false.
-Proof. intros. unfold loop_rc_handle. apply close_lost with (id := id); auto. intros; lia. Qed.
+Proof. intros. unfold loop_rc_handle. apply lost_N with (id := id); auto. intros; lia. Qed.
 
 Lemma keepalive_close_N id s : Pre true s -> sock s = Some id -> incb s = false ->
   let s' := keepalive_close c nested s in Pre true s' /\ incb s' = false.
-Proof. intros. unfold keepalive_close. apply close_lost with (id := id); auto. unfold E_KEEPALIVE. intros; lia. Qed.
+Proof. intros. unfold keepalive_close. apply lost_N with (id := id); auto. unfold E_KEEPALIVE. intros; lia. Qed.
 
-Lemma call_regw_Q s : scr_ok (scr s) = true -> quiet_rel s (call_regw c nested s).
+(* ---- _packet_queue and reconnect(), for both layers ---- *)
+Definition queued (k : pkind) (s : st) : st :=
+  set_outq (match k with KConnect => mkQ k false :: outq s | _ => outq s ++ [mkQ k false] end) s.
+
+(* what is needed of _packet_queue(CONNECT) on states satisfying G *)
+Definition PQspec (G : st -> Prop) : Prop := forall s, G s -> Pre true (queued KConnect s) -> sock s <> None ->
+  Pre true (fst (packet_queue c nested KConnect s)) /\ incb (fst (packet_queue c nested KConnect s)) = incb s /\
+  (NW c s -> quiet_rel (queued KConnect s) (fst (packet_queue c nested KConnect s))).
+
+(* in a nested call nothing is written: register-write only *)
+Lemma packet_queue_Q k s : NW c s -> Pre true (queued k s) ->
+  Pre true (fst (packet_queue c nested k s)) /\ incb (fst (packet_queue c nested k s)) = incb s /\
+  quiet_rel (queued k s) (fst (packet_queue c nested k s)).
 Proof.
-  intros HS. destruct (Bool.bool_dec (c_ext c) true) as [Ex|Ex].
-  - apply call_regw_quiet; [exact Hq|left; exact Ex|apply scr_ok_regw; exact HS].
-  - apply not_true_is_false in Ex. unfold call_regw. destruct (sock s) eqn:Es; [|apply quiet_refl].
-    destruct (regw s) eqn:Er; [apply quiet_refl|]. rewrite Ex.
-    apply quiet_frame; try reflexivity; ssimpl; try reflexivity; congruence.
+  intros Hnw HP. unfold packet_queue. fold (queued k s).
+  assert (E : negb (c_ext c) && negb (incb (queued k s)) = false).
+  { destruct Hnw as [A|A]; [rewrite A; reflexivity|]. unfold queued. ssimpl. rewrite A. apply andb_false_r. }
+  rewrite E. cbn [fst]. destruct (call_regw_N _ HP) as (A1 & A2 & A3). split; [exact A1|]. split; [exact A2|exact A3].
+Qed.
+Lemma PQspec_NW : PQspec (NW c).
+Proof. intros s Hnw HP _. destruct (packet_queue_Q KConnect s Hnw HP) as (A & B & C0). auto. Qed.
+
+(* the body of reconnect(), started at a stable point or inside the window after a written DISCONNECT *)
+Lemma reconnect_body_G (G : st -> Prop) ok s :
+  PQspec G -> (forall s1 s2, incb s2 = incb s1 -> G s1 -> G s2) -> G s ->
+  sok (scr s) = true -> (V true s (KS10 s) \/ exists id, Vc id s (KS10 s)) ->
+  let r := reconnect_body c nested ok s in
+  Pre true (fst r) /\ incb (fst r) = incb s /\
+  (NW c s -> (sock (fst r) = None -> outq (fst r) = []) /\ nsock s <= nsock (fst r) /\
+             forall x, sock (fst r) = Some x -> nsock s < x).
+Proof.
+  intros Hpq HG HGs HS HV. unfold reconnect_body.
+  set (s1 := set_cs CsConnecting (set_ping false s)).
+  assert (C1 : let s2 := sock_close c nested RReplaced s1 in
+               V true s2 (KS10 s2) /\ sock s2 = None /\ cs s2 = CsConnecting /\ incb s2 = incb s /\
+               nsock s2 = nsock s /\ sok (scr s2) = true).
+  { destruct (sock s) as [id|] eqn:Es.
+    - destruct (sock_close_char RReplaced id s1 Es HS (or_introl eq_refl)) as (A1 & A2 & A3 & A4 & A5 & A6 & A7 & A8 & A9 & A10 & A11).
+      split; [|repeat split; assumption].
+      rewrite A1. rewrite (KS_frame _ _ s s1) by reflexivity.
+      destruct HV as [HV|[id' HV]].
+      + eapply V_end_replaced; [exact HV|exact Es|exact A2|]. unfold is_connected. rewrite A3. reflexivity.
+      + assert (id' = id) by (destruct HV; congruence). subst id'.
+        eapply Vc_end_replaced; [exact HV|exact A2|]. unfold is_connected. rewrite A3. reflexivity.
+    - unfold sock_close. assert (E : sock s1 = None) by exact Es. rewrite E.
+      split; [|repeat split; try assumption; reflexivity].
+      rewrite (KS_frame _ _ s s1) by reflexivity.
+      destruct HV as [HV|[id' HV]]; [|destruct HV; congruence]. dV HV.
+      apply V_nosock; try assumption; try reflexivity; try congruence. }
+  set (s2 := sock_close c nested RReplaced s1) in *.
+  destruct C1 as (V2 & S2 & CS2 & I2 & N2 & HS2).
+  set (s3 := set_outq [] s2).
+  assert (V3 : V true s3 (KS10 s3)).
+  { rewrite (KS_frame _ _ s2 s3) by reflexivity. dV V2.
+    apply V_nosock; try assumption; try reflexivity; try (unfold s3; ssimpl; congruence); try (intros X; discriminate X).
+    unfold is_connected, s3. ssimpl. rewrite CS2. reflexivity. }
+  destruct ok; cbn [negb].
+  2:{ cbn [fst]. split; [|split; [ssimpl; exact I2|]].
+      - apply Pre_emit; [reflexivity|]. split; [exact V3|exact HS2].
+      - intros _. split; [intros _; reflexivity|]. split; [unfold s3; ssimpl; lia|]. unfold s3. ssimpl. rewrite S2. intros x X; discriminate X. }
+  set (id := nsock s3 + 1).
+  set (s4 := emit (SockNew id) (set_regw false (set_sock (Some id) (set_nsock id s3)))).
+  assert (P4 : Pre false s4).
+  { split; [|exact HS2].
+    unfold s4. rewrite KS_emit. rewrite (KS_frame _ _ s3 (set_regw false (set_sock (Some id) (set_nsock id s3)))) by reflexivity.
+    eapply V_sock_new; [exact V3|exact S2|reflexivity|ssimpl; exact CS2|reflexivity|ssimpl; lia]. }
+  assert (C5 : let s5 := (if c_sockcb c then run_site nested SiOpen false (SockOpen id) s4 else s4) in
+               Pre false s5 /\ incb s5 = incb s /\ sock s5 = Some id /\ nsock s5 = id).
+  { destruct (c_sockcb c).
+    - destruct (run_site_open (SockOpen id) s4) as (A1 & A2 & A3 & A4); [apply Pre_emit; [reflexivity|exact P4]|].
+      split; [exact A1|]. split; [rewrite A2; unfold s4; ssimpl; exact I2|]. split; [rewrite A3; reflexivity|rewrite A4; reflexivity].
+    - split; [exact P4|]. split; [unfold s4; ssimpl; exact I2|split; reflexivity]. }
+  set (s5 := if c_sockcb c then run_site nested SiOpen false (SockOpen id) s4 else s4) in *.
+  destruct C5 as (P5 & I5 & S5 & N5).
+  assert (P5' : Pre true (queued KConnect s5)).
+  { destruct P5 as (X1 & X2). split; [|exact X2].
+    rewrite (KS_frame _ _ s5 (queued KConnect s5)) by reflexivity.
+    apply V_append_connect. exact X1. }
+  assert (G5 : G s5) by (eapply HG; [|exact HGs]; congruence).
+  destruct (Hpq s5 G5 P5' ltac:(congruence)) as (A1 & A2 & A3).
+  destruct (packet_queue c nested KConnect s5) as [s6 rc]. cbn [fst snd] in *.
+  split; [exact A1|]. split; [congruence|].
+  intros Hnw. assert (Hnw5 : NW c s5) by (destruct Hnw as [Y|Y]; [left; exact Y|right; congruence]).
+  pose proof (A3 Hnw5) as Q.
+  assert (E6 : sock s6 = Some id) by (rewrite (qr_sock _ _ Q); exact S5).
+  assert (N6 : nsock s6 = id) by (rewrite (qr_nsock _ _ Q); exact N5).
+  split; [intros X; congruence|]. split; [rewrite N6; unfold id, s3; ssimpl; lia|].
+  intros x X. assert (x = id) by congruence. subst x. unfold id, s3. ssimpl. lia.
 Qed.
 
-Lemma pop_outcome_spec s : nofail s ->
-  let o := fst (pop_outcome s) in let s1 := snd (pop_outcome s) in
-  tr s1 = tr s /\ sock s1 = sock s /\ cs s1 = cs s /\ outq s1 = outq s /\ scr s1 = scr s /\ incb s1 = incb s /\
-  nofail s1 /\ (nf = true -> o <> OFail).
+Lemma api_send_NW ck k s : NW c s -> Pre true s -> inert10 (Call ck) = true -> (ck = CPublish \/ ck = CSubscribe) ->
+  is_connect k = false -> is_disconnect k = false ->
+  let s' := fst (api_send c nested ck k s) in Pre true s' /\ quiet_rel s s'.
 Proof.
-  intros HF. unfold pop_outcome. destruct (sched s) as [|o l] eqn:E; cbn [fst snd].
-  - repeat split; try reflexivity; [exact HF|discriminate].
-  - ssimpl. repeat split; try reflexivity.
-    + unfold nofail in *. ssimpl. intros X. specialize (HF X). rewrite E in HF. eapply nofail_tail. exact HF.
-    + intros X Y. subst o. specialize (HF X). rewrite E in HF. discriminate.
+  intros Hnw HP Hck Hck2 Hk Hkd.
+  assert (Q : quiet_rel s (fst (api_send c nested ck k s))).
+  { apply api_send_quiet; auto. apply (scr_ok_regw (c_ext c)). apply HP. }
+  split; [|exact Q].
+  unfold api_send. ssimpl.
+  assert (HP1 : Pre true (emit (Call ck) s)) by (apply Pre_emit; assumption).
+  destruct (sock s) as [id|] eqn:Es; cbn [fst]; [|exact HP1].
+  apply packet_queue_Q; [destruct Hnw as [A|A]; [left|right]; exact A|].
+  destruct HP1 as (X1 & X2). split; [|exact X2].
+  rewrite (KS_frame _ _ (emit (Call ck) s) (queued k (emit (Call ck) s))) by reflexivity.
+  unfold queued. assert (Em : (match k with KConnect => mkQ k false :: outq (emit (Call ck) s) | _ => outq (emit (Call ck) s) ++ [mkQ k false] end)
+                               = outq (emit (Call ck) s) ++ [mkQ k false]) by (destruct k; try discriminate Hk; reflexivity).
+  rewrite Em. apply V_append; [exact X1|exact Hk|rewrite Hkd; discriminate].
 Qed.
 
-Lemma Vc_obs id s k x hs ww rw : Vc id s k -> Vc id s (k10_ev k (Obs x (is_connected s) hs ww rw)).
+Lemma api_disconnect_NW s : NW c s -> Pre true s ->
+  let s' := fst (api_disconnect c nested s) in Pre true s' /\ quiet_rel s s'.
 Proof.
-  intros HV. destruct HV as [cok1 cok2 cok3 csock ccur1 ccur2 ccs cowed ccredit].
-  assert (E : is_connected s = false) by (unfold is_connected; rewrite ccs; reflexivity). rewrite E.
-  k10s. destruct (teardown_site x); k10s; constructor; k10s; try assumption.
-  rewrite cok1. reflexivity.
+  intros Hnw (HV & HS).
+  assert (Q : quiet_rel s (fst (api_disconnect c nested s))).
+  { apply api_disconnect_quiet; auto. apply (scr_ok_regw (c_ext c)). exact HS. }
+  split; [|exact Q].
+  unfold api_disconnect. ssimpl. destruct (sock s) as [id|] eqn:Es; cbn [fst].
+  - set (s1 := set_cs CsDisconnecting (emit (Call CDisconnect) s)).
+    assert (V1 : V true s1 (KS10 s1)).
+    { unfold s1. rewrite (KS_frame _ _ (emit (Call CDisconnect) s) (set_cs CsDisconnecting (emit (Call CDisconnect) s))) by reflexivity.
+      rewrite KS_emit. apply V_frame with (s := set_cs CsDisconnecting s); try reflexivity.
+      eapply V_call_disc_some; eassumption. }
+    apply packet_queue_Q; [destruct Hnw as [A|A]; [left|right]; exact A|].
+    split; [|exact HS]. rewrite (KS_frame _ _ s1 (queued KDisconnect s1)) by reflexivity.
+    unfold queued. apply V_append; [exact V1|reflexivity|intros _ _; reflexivity].
+  - split; [|exact HS].
+    rewrite (KS_frame _ _ (emit (Call CDisconnect) s) (set_cs CsDisconnected (emit (Call CDisconnect) s))) by reflexivity.
+    rewrite KS_emit. apply V_frame with (s := set_cs CsDisconnected s); try reflexivity.
+    apply V_call_disc_none; assumption.
 Qed.
+
+Lemma api_reconnect_NW ok s : NW c s -> sok (scr s) = true -> (V true s (KS10 s) \/ exists id, Vc id s (KS10 s)) ->
+  let s' := fst (api_reconnect c nested ok s) in
+  Pre true s' /\ incb s' = incb s /\ (sock s' = None -> outq s' = []) /\ nsock s <= nsock s' /\
+  (forall x, sock s' = Some x -> nsock s < x).
+Proof.
+  intros Hnw HS HV. unfold api_reconnect.
+  destruct (reconnect_body_G (NW c) ok (emit (Call CReconnect) s) PQspec_NW) as (A1 & A2 & A3).
+  - intros s1 s2 E [X|X]; [left; exact X|right; congruence].
+  - destruct Hnw as [X|X]; [left|right]; exact X.
+  - exact HS.
+  - rewrite KS_emit, (k10_inert _ (Call CReconnect)) by reflexivity.
+    destruct HV as [HV|[id HV]]; [left; eapply V_frame; [| | | |exact HV]; reflexivity|right; exists id].
+    dVc HV. constructor; assumption.
+  - destruct A3 as (B1 & B2 & B3); [destruct Hnw as [X|X]; [left|right]; exact X|].
+    split; [exact A1|]. split; [exact A2|]. split; [exact B1|]. split; [exact B2|exact B3].
+Qed.
+
+Lemma api_nested_N a s : NW c s -> Pre true s ->
+  let s' := api_nested c nested a s in Pre true s' /\ incb s' = incb s /\ Rel s s' /\ SockRel s s'.
+Proof.
+  intros Hnw HP. destruct a; cbn [api_nested].
+  - destruct (api_send_NW CPublish KPublish0 s Hnw HP eq_refl (or_introl eq_refl) eq_refl eq_refl) as (A1 & Q).
+    split; [exact A1|]. split; [exact (qr_incb _ _ Q)|]. split; [apply Rel_quiet|apply SockRel_quiet]; exact Q.
+  - destruct (api_send_NW CSubscribe KSubscribe s Hnw HP eq_refl (or_intror eq_refl) eq_refl eq_refl) as (A1 & Q).
+    split; [exact A1|]. split; [exact (qr_incb _ _ Q)|]. split; [apply Rel_quiet|apply SockRel_quiet]; exact Q.
+  - destruct (api_disconnect_NW s Hnw HP) as (A1 & Q).
+    split; [exact A1|]. split; [exact (qr_incb _ _ Q)|]. split; [apply Rel_quiet|apply SockRel_quiet]; exact Q.
+  - destruct (api_reconnect_NW ok s Hnw (proj2 HP) (or_introl (proj1 HP))) as (A1 & A2 & A3 & A4 & A5).
+    split; [exact A1|]. split; [exact A2|]. split; [intros X; right; apply A3; exact X|].
+    split; [exact A4|]. intros x X. right. apply A5. exact X.
+Qed.
+
+Lemma exec_script_N : forall sc s, NW c s -> Pre true s ->
+  let s' := exec_script c nested sc s in Pre true s' /\ incb s' = incb s /\ Rel s s' /\ SockRel s s'.
+Proof.
+  unfold exec_script. induction sc as [|a sc IH]; intros s Hnw HP; cbn [fold_left].
+  - split; [exact HP|]. split; [reflexivity|]. split; [apply Rel_refl|apply SockRel_refl].
+  - destruct (api_nested_N a s Hnw HP) as (A1 & A2 & A3 & A4).
+    assert (Hnw' : NW c (api_nested c nested a s)) by (destruct Hnw as [X|X]; [left; exact X|right; congruence]).
+    destruct (IH _ Hnw' A1) as (B1 & B2 & B3 & B4).
+    split; [exact B1|]. split; [congruence|]. split; [eapply Rel_trans; eassumption|eapply SockRel_trans; eassumption].
+Qed.
+
+(* a script run inside the window after a written DISCONNECT: the window stays, or a reconnect() ended it *)
+Definition Cpost (id : Z) (s s' : st) : Prop :=
+  incb s' = incb s /\ sok (scr s') = true /\
+  (Vc id s' (KS10 s') \/ (Pre true s' /\ id <= nsock s' /\ forall x, sock s' = Some x -> id < x)).
+
+Lemma exec_script_C : forall sc s id, NW c s -> Vc id s (KS10 s) -> sok (scr s) = true ->
+  Cpost id s (exec_script c nested sc s).
+Proof.
+  unfold exec_script. induction sc as [|a sc IH]; intros s id Hnw HV HS; cbn [fold_left].
+  - split; [reflexivity|]. split; [exact HS|left; exact HV].
+  - destruct (is_reconnect a) eqn:Ea.
+    + destruct a as [| | |ok]; try discriminate Ea. cbn [api_nested].
+      destruct (api_reconnect_NW ok s Hnw HS (or_intror (ex_intro _ id HV))) as (A1 & A2 & A3 & A4 & A5).
+      set (s1 := fst (api_reconnect c nested ok s)) in *.
+      assert (Hnw1 : NW c s1) by (destruct Hnw as [X|X]; [left; exact X|right; congruence]).
+      destruct (exec_script_N sc s1 Hnw1 A1) as (B1 & B2 & B3 & B4 & B5). unfold exec_script in *.
+      assert (Hid : id <= nsock s) by (destruct HV; assumption).
+      split; [congruence|]. split; [apply B1|]. right. split; [exact B1|]. split; [lia|].
+      intros x X. destruct (B5 x X) as [Y|Y]; [specialize (A5 x Y); lia|lia].
+    + pose proof (api_nested_quiet c nested Hq a s Hnw (scr_ok_regw _ _ HS) Ea) as Q.
+      pose proof (Vc_quiet id _ _ k0 Q HV) as HV1.
+      assert (Hnw1 : NW c (api_nested c nested a s)) by (eapply NW_quiet; eassumption).
+      destruct (IH _ id Hnw1 HV1 (scr_ok_quiet _ _ _ Q HS)) as (B1 & B2 & B3).
+      split; [rewrite B1; exact (qr_incb _ _ Q)|]. split; [exact B2|exact B3].
+Qed.
+
+(* ---- the loop layer ---- *)
+Hypothesis Hc : forall sc s id, NW c s -> Vc id s (KS10 s) -> sok (scr s) = true -> Cpost id s (nested sc s).
 
 (* a DISCONNECT packet has just been written completely *)
 Lemma disc_written id p q' s s1 : Pre true s -> outq s = p :: q' -> qk p = KDisconnect -> sock s = Some id ->
   incb s = false -> tr s1 = tr s -> sock s1 = sock s -> cs s1 = cs s -> outq s1 = q' -> scr s1 = scr s ->
-  incb s1 = incb s -> nofail s1 ->
+  incb s1 = incb s -> nsock s1 = nsock s ->
   let s3 := do_on_disconnect nested 0 false (emit (Tx id KDisconnect) s1) in
-  let s4 := sock_close c nested RDiscWritten s3 in
-  let s5 := match cs s4 with CsDisconnecting => set_cs CsDisconnected s4 | _ => s4 end in
-  Pre true s5 /\ incb s5 = false.
+  let r := match sock s3 with
+           | Some id' => if id' =? id then
+                           let s4 := sock_close c nested RDiscWritten s3 in
+                           (match cs s4 with CsDisconnecting => set_cs CsDisconnected s4 | _ => s4 end, 0)
+                         else (s3, 0)
+           | None => (s3, 0)
+           end in
+  Pre true (fst r) /\ incb (fst r) = false.
 Proof.
-  intros (HV & HS & HF) Hq0 Hk Hs Hi Ftr Fsock Fcs Foutq Fscr Fincb HF1.
+  intros (HV & HS) Hq0 Hk Hs Hi Ftr Fsock Fcs Foutq Fscr Fincb Fnsock.
   set (s2 := emit (Tx id KDisconnect) s1).
   assert (W0 : Vc id s2 (k10_ev (KS10 s2) (CbDisconnect 0 false))).
   { unfold s2. rewrite KS_emit, (KS_frame _ _ _ _ Ftr).
     pose proof (Vc_enter id p q' s (KS10 s) Hs Hq0 ltac:(rewrite Hk; reflexivity) HV) as W. rewrite Hk in W.
-    destruct W as [cok1 cok2 cok3 csock ccur1 ccur2 ccs cowed ccredit]. ssimpl.
-    constructor; ssimpl; try assumption; congruence. }
+    dVc W. ssimpl. constructor; ssimpl; try assumption; congruence. }
   unfold do_on_disconnect, has_sock. fold s2.
   assert (Es2 : sock s2 = Some id) by (unfold s2; ssimpl; congruence). rewrite Es2.
   unfold run_site. assert (Ei : incb s2 = false) by (unfold s2; ssimpl; congruence). rewrite Ei. cbn [andb].
   set (sa := obs (WCb SiDiscOpen) (emit (CbDisconnect 0 false) s2)).
   assert (Wa : Vc id sa (KS10 sa)).
-  { unfold sa, obs. rewrite KS_emit, KS_emit.
-    destruct W0 as [cok1 cok2 cok3 csock ccur1 ccur2 ccs cowed ccredit].
+  { unfold sa, obs. rewrite KS_emit, KS_emit. dVc W0.
     assert (W0' : Vc id (emit (CbDisconnect 0 false) s2) (k10_ev (KS10 s2) (CbDisconnect 0 false))).
     { constructor; ssimpl; assumption. }
     pose proof (Vc_obs id _ _ (WCb SiDiscOpen) (has_sock (emit (CbDisconnect 0 false) s2))
                   (want_write (emit (CbDisconnect 0 false) s2)) (regw s2) W0') as W1.
-    destruct W1 as [cok1' cok2' cok3' csock' ccur1' ccur2' ccs' cowed' ccredit']. constructor; ssimpl; assumption. }
-  assert (HSa : scr_ok (scr sa) = true) by (unfold sa, s2; ssimpl; rewrite Fscr; exact HS).
+    destruct W1 as [d1 d2 d3 d4 d5 d6 d7 d8 d9 d10]. constructor; ssimpl; assumption. }
+  assert (HSa : sok (scr sa) = true) by (unfold sa, s2; ssimpl; rewrite Fscr; exact HS).
   pose proof (pop_script_frame SiDiscOpen sa) as F.
-  pose proof (scr_ok_pop SiDiscOpen sa HSa) as HSb.
-  pose proof (scr_ok_pop_discopen sa HSa) as Hsc.
+  pose proof (scr_ok_pop (c_ext c) SiDiscOpen sa HSa) as HSb.
   destruct (pop_script SiDiscOpen sa) as [sc sb]. cbn [fst snd] in *.
   destruct F as (Gcs & Gsock & Gregw & Goutq & Gping & Gincb & Gproto & Gnsock & Gsched & Gtr).
   assert (Wb : Vc id sb (KS10 sb)).
-  { rewrite (KS_frame _ _ _ _ Gtr). destruct Wa as [cok1 cok2 cok3 csock ccur1 ccur2 ccs cowed ccredit].
-    constructor; try assumption; congruence. }
+  { rewrite (KS_frame _ _ _ _ Gtr). dVc Wa. constructor; try assumption; congruence. }
+  assert (Hib : incb sb = false) by (rewrite Gincb; unfold sa; ssimpl; exact Ei).
   (* the state after the callback returned *)
   assert (R : exists sw, (match sc with [] => sb | _ :: _ => set_incb (incb sb) (nested sc (set_incb (true || incb sb) sb)) end) = sw /\
-              Vc id sw (KS10 sw) /\ scr_ok (scr sw) = true /\ incb sw = false /\ sched sw = sched s1).
-  { assert (Hib : incb sb = false) by (rewrite Gincb; unfold sa; ssimpl; exact Ei).
-    assert (Hsb : sched sb = sched s1) by (rewrite Gsched; reflexivity).
-    destruct sc as [|a sc]; [exists sb; split; [reflexivity|]; split; [exact Wb|]; split; [exact HSb|]; split; [exact Hib|exact Hsb]|].
+              incb sw = false /\ sok (scr sw) = true /\
+              (Vc id sw (KS10 sw) \/ (Pre true sw /\ id <= nsock sw /\ forall x, sock sw = Some x -> id < x))).
+  { destruct sc as [|a sc]; [exists sb; split; [reflexivity|]; split; [exact Hib|]; split; [exact HSb|left; exact Wb]|].
     eexists; split; [reflexivity|].
     set (sc0 := set_incb (true || incb sb) sb).
     assert (Wc : Vc id sc0 (KS10 sc0)).
-    { rewrite (KS_frame _ _ sb sc0) by reflexivity. destruct Wb as [cok1 cok2 cok3 csock ccur1 ccur2 ccs cowed ccredit].
-      constructor; ssimpl; assumption. }
-    assert (Q : quiet_rel sc0 (nested (a :: sc) sc0)).
-    { apply Hq; [right; reflexivity|exact Hsc|apply scr_ok_regw; exact HSb]. }
-    pose proof (Vc_quiet id _ _ k0 Q Wc) as Wd.
-    split; [|split; [|split]].
-    - rewrite (KS_frame _ _ (nested (a :: sc) sc0) (set_incb (incb sb) (nested (a :: sc) sc0))) by reflexivity.
-      destruct Wd as [cok1 cok2 cok3 csock ccur1 ccur2 ccs cowed ccredit]. constructor; ssimpl; assumption.
-    - ssimpl. eapply scr_ok_quiet; [exact Q|exact HSb].
-    - ssimpl. exact Hib.
-    - ssimpl. rewrite (qr_sched _ _ Q). exact Hsb. }
-  destruct R as (sw & Esw & Ww & HSw & Hiw & Hschw). rewrite Esw. clear Esw.
-  destruct Ww as [cok1 cok2 cok3 csock ccur1 ccur2 ccs cowed ccredit].
-  destruct (sock_close_char RDiscWritten id sw csock HSw) as (A1 & A2 & A3 & A4 & A5 & A6 & A7 & A8 & A9 & A10 & A11).
-  set (s4 := sock_close c nested RDiscWritten sw) in *.
-  rewrite A3, ccs.
-  split; [|ssimpl; congruence].
-  split; [|split].
-  - rewrite (KS_frame _ _ s4 (set_cs CsDisconnected s4)) by reflexivity. rewrite A1.
+    { rewrite (KS_frame _ _ sb sc0) by reflexivity. dVc Wb. constructor; ssimpl; assumption. }
+    destruct (Hc (a :: sc) sc0 id (or_intror eq_refl) Wc HSb) as (C1 & C2 & C3).
+    split; [ssimpl; exact Hib|]. split; [ssimpl; exact C2|].
+    destruct C3 as [C3|(C3 & C4 & C5)].
+    - left. rewrite (KS_frame _ _ (nested (a :: sc) sc0) (set_incb (incb sb) (nested (a :: sc) sc0))) by reflexivity.
+      dVc C3. constructor; ssimpl; assumption.
+    - right. split; [eapply Pre_frame; [| | | | | |exact C3]; reflexivity|]. ssimpl. split; assumption. }
+  destruct R as (sw & Esw & Hiw & HSw & Ww). rewrite Esw. clear Esw.
+  destruct Ww as [Ww|(Pw & Nw & Fw)].
+  - dVc Ww. rewrite csock, Z.eqb_refl.
+    assert (Hnc : is_connected sw = false) by (unfold is_connected; rewrite ccs; reflexivity).
+    destruct (sock_close_char RDiscWritten id sw csock HSw (or_intror Hnc))
+      as (A1 & A2 & A3 & A4 & A5 & A6 & A7 & A8 & A9 & A10 & A11).
+    set (s4 := sock_close c nested RDiscWritten sw) in *.
+    rewrite A3, ccs. cbn [fst].
+    split; [|ssimpl; congruence].
+    split; [|ssimpl; exact A11].
+    rewrite (KS_frame _ _ s4 (set_cs CsDisconnected s4)) by reflexivity. rewrite A1.
     eapply Vc_end; [constructor; eassumption|ssimpl; exact A2|reflexivity].
-  - ssimpl. exact A11.
-  - unfold nofail in *. ssimpl. rewrite A6, Hschw. exact HF1.
+  - (* on_disconnect called reconnect(): the new connection is left alone *)
+    destruct (sock sw) as [id'|] eqn:Esw; [|cbn [fst]; split; assumption].
+    assert (id' =? id = false) by (apply Z.eqb_neq; specialize (Fw id' eq_refl); lia).
+    rewrite H. cbn [fst]. split; assumption.
 Qed.
 
 Lemma V_restart b p q' s k : outq s = p :: q' -> V true s k -> V true (set_outq (mkQ (qk p) b :: q') s) k.
 Proof.
-  intros Hq0 HV. destruct HV as [ok1 ok2 ok3 cur1 cur2 cur3 conn owed credit disc qdisc wire new].
-  rewrite Hq0 in *. constructor; ssimpl; try assumption.
-  intros; discriminate.
+  intros Hq0 HV. dV HV. rewrite Hq0 in *. constructor; ssimpl; try assumption; try (intros X; discriminate X).
 Qed.
+
+Lemma pop_outcome_spec s :
+  let s1 := snd (pop_outcome s) in
+  tr s1 = tr s /\ sock s1 = sock s /\ cs s1 = cs s /\ outq s1 = outq s /\ scr s1 = scr s /\ incb s1 = incb s /\
+  nsock s1 = nsock s.
+Proof. unfold pop_outcome. destruct (sched s); cbn [snd]; repeat split. Qed.
 
 Lemma pw_loop_N : forall n s, Pre true s -> incb s = false -> (sock s = None -> outq s = []) ->
   Pre true (fst (pw_loop c nested n s)) /\ incb (fst (pw_loop c nested n s)) = false /\
-  (snd (pw_loop c nested n s) > 0 -> sock (fst (pw_loop c nested n s)) <> None) /\
-  (nf = true -> snd (pw_loop c nested n s) <= 0).
+  (snd (pw_loop c nested n s) > 0 -> sock (fst (pw_loop c nested n s)) <> None).
 Proof.
   induction n as [|n IH]; intros s HP Hi Hno; cbn [pw_loop].
-  { cbn [fst snd]. split; [apply Pre_emit; [reflexivity|exact HP]|]. split; [exact Hi|]. split; intros; lia. }
+  { cbn [fst snd]. split; [apply Pre_emit; [reflexivity|exact HP]|]. split; [exact Hi|]. intros; lia. }
   destruct (outq s) as [|p q'] eqn:Eq0.
-  { cbn [fst snd]. split; [exact HP|]. split; [exact Hi|]. split; intros; lia. }
+  { cbn [fst snd]. split; [exact HP|]. split; [exact Hi|]. intros; lia. }
   destruct (sock s) as [id|] eqn:Es; [|specialize (Hno eq_refl); discriminate].
   ssimpl. rewrite Es.
-  destruct HP as (HV & HS & HF).
-  pose proof (pop_outcome_spec (set_outq q' s) HF) as Sp.
+  destruct HP as (HV & HS).
+  pose proof (pop_outcome_spec (set_outq q' s)) as Sp.
   destruct (pop_outcome (set_outq q' s)) as [o s1]. cbn [fst snd] in Sp.
-  destruct Sp as (Ftr & Fsock & Fcs & Foutq & Fscr & Fincb & HF1 & Hof). ssimpl.
-  (* the head packet put back *)
+  destruct Sp as (Ftr & Fsock & Fcs & Foutq & Fscr & Fincb & Fnsock). ssimpl.
   assert (Hback : forall b, Pre true (push_front (mkQ (qk p) b) s1)).
-  { intros b. split; [|split; [ssimpl; rewrite Fscr; exact HS|unfold nofail in *; ssimpl; exact HF1]].
+  { intros b. split; [|ssimpl; rewrite Fscr; exact HS].
     rewrite (KS_frame _ _ s (push_front (mkQ (qk p) b) s1)) by (ssimpl; exact Ftr).
     apply V_frame with (s := set_outq (mkQ (qk p) b :: q') s); ssimpl; try congruence.
     apply V_restart; assumption. }
   assert (Hback' : Pre true (push_front p s1)).
   { specialize (Hback (qstarted p)). destruct p; exact Hback. }
-  assert (Hblocked : let s' := push_front p (call_regw c nested s1) in
-                     Pre true s' /\ incb s' = false).
+  assert (Hblocked : let s' := push_front p (call_regw c nested s1) in Pre true s' /\ incb s' = false).
   { pose proof (call_regw_Q s1 ltac:(rewrite Fscr; exact HS)) as Q.
     split; [|ssimpl; rewrite (qr_incb _ _ Q); congruence].
-    split; [|split].
+    split.
     - rewrite (KS_frame _ _ (call_regw c nested s1) (push_front p (call_regw c nested s1))) by reflexivity.
-      pose proof (V_quiet [p] s1 (call_regw c nested s1) k0 Q) as X. cbn [app] in X. apply X.
+      pose proof (V_quiet true [p] s1 (call_regw c nested s1) k0 Q) as X. cbn [app] in X. apply X.
       destruct Hback' as (X1 & _). rewrite (KS_frame _ _ s1 (push_front p s1)) in X1 by reflexivity. exact X1.
-    - ssimpl. eapply scr_ok_quiet; [exact Q|rewrite Fscr; exact HS].
-    - unfold nofail in *. ssimpl. rewrite (qr_sched _ _ Q). exact HF1. }
+    - ssimpl. eapply scr_ok_quiet; [exact Q|rewrite Fscr; exact HS]. }
   assert (Hs1 : sock s1 = Some id) by congruence.
   assert (Hi1 : incb s1 = false) by congruence.
   destruct o.
-  - (* everything accepted *)
-    destruct (is_disconnect (qk p)) eqn:Ed.
+  - destruct (is_disconnect (qk p)) eqn:Ed.
     + assert (Hk : qk p = KDisconnect) by (destruct (qk p); try discriminate; reflexivity). rewrite Hk.
-      cbn [fst snd].
-      pose proof (disc_written id p q' s s1 (conj HV (conj HS HF)) Eq0 Hk Es Hi Ftr Fsock Fcs Foutq Fscr Fincb HF1) as (X1 & X2).
-      split; [exact X1|]. split; [exact X2|]. split; intros; lia.
+      pose proof (disc_written id p q' s s1 (conj HV HS) Eq0 Hk Es Hi Ftr Fsock Fcs Foutq Fscr Fincb Fnsock) as (X1 & X2).
+      cbn zeta in X1, X2.
+      destruct (sock (do_on_disconnect nested 0 false (emit (Tx id KDisconnect) s1))) as [id'|];
+        [destruct (id' =? id)|]; cbn [fst snd] in *; (split; [exact X1|]; split; [exact X2|]; intros; lia).
     + assert (HP2 : Pre true (emit (Tx id (qk p)) s1)).
-      { split; [|split; [ssimpl; rewrite Fscr; exact HS|unfold nofail in *; ssimpl; exact HF1]].
+      { split; [|ssimpl; rewrite Fscr; exact HS].
         rewrite KS_emit, (KS_frame _ _ _ _ Ftr).
         apply V_frame with (s := set_outq q' s); ssimpl; try congruence.
         apply V_tx; assumption. }
       assert (Hother : let r := pw_loop c nested n (emit (Tx id (qk p)) s1) in
-                Pre true (fst r) /\ incb (fst r) = false /\ (snd r > 0 -> sock (fst r) <> None) /\ (nf = true -> snd r <= 0)).
+                Pre true (fst r) /\ incb (fst r) = false /\ (snd r > 0 -> sock (fst r) <> None)).
       { apply IH; [exact HP2|ssimpl; exact Hi1|ssimpl; congruence]. }
       destruct (qk p) eqn:Ek; try exact Hother; [discriminate Ed|].
-      (* QoS 0 PUBLISH: on_publish *)
       destruct (run_site_N SiPublish true CbPublish (emit (Tx id KPublish0) s1)) as (B1 & B2 & B3).
       * intros _. ssimpl. exact Hi1.
       * discriminate.
       * apply Pre_emit; [reflexivity|exact HP2].
       * apply IH; [exact B1|rewrite B2; ssimpl; exact Hi1|].
         intros X. destruct (B3 X) as [[Y _]|Y]; [ssimpl; congruence|exact Y].
-  - (* all but the last byte *)
-    destruct (qstarted p).
-    + cbn [fst snd]. destruct Hblocked as (X1 & X2). split; [exact X1|]. split; [exact X2|]. unfold E_AGAIN. split; intros; lia.
+  - destruct (qstarted p).
+    + cbn [fst snd]. destruct Hblocked as (X1 & X2). split; [exact X1|]. split; [exact X2|]. unfold E_AGAIN. intros; lia.
     + apply IH; [apply Hback|ssimpl; exact Hi1|ssimpl; congruence].
-  - cbn [fst snd]. destruct Hblocked as (X1 & X2). split; [exact X1|]. split; [exact X2|]. unfold E_AGAIN. split; intros; lia.
-  - cbn [fst snd]. split; [exact Hback'|]. split; [ssimpl; exact Hi1|]. split; intros; lia.
-  - cbn [fst snd]. split; [exact Hback'|]. split; [ssimpl; exact Hi1|]. split.
-    + intros _. ssimpl. congruence.
-    + intros X. exfalso. exact (Hof X eq_refl).
+  - cbn [fst snd]. destruct Hblocked as (X1 & X2). split; [exact X1|]. split; [exact X2|]. unfold E_AGAIN. intros; lia.
+  - cbn [fst snd]. split; [exact Hback'|]. split; [ssimpl; exact Hi1|]. intros; lia.
+  - cbn [fst snd]. split; [exact Hback'|]. split; [ssimpl; exact Hi1|]. intros _. ssimpl. congruence.
 Qed.
 
 Lemma loop_write_N s : Pre true s -> incb s = false ->
-  let r := loop_write c nested s in
-  Pre true (fst r) /\ incb (fst r) = false /\ (nf = true -> sock s <> None -> snd r = 0).
+  let r := loop_write c nested s in Pre true (fst r) /\ incb (fst r) = false.
 Proof.
-  intros HP Hi. unfold loop_write. destruct (sock s) as [id|] eqn:Es.
-  2:{ cbn [fst snd]. split; [exact HP|]. split; [exact Hi|]. intros _ X. congruence. }
+  intros HP Hi. unfold loop_write. destruct (sock s) as [id|] eqn:Es; [|cbn [fst]; auto].
   unfold packet_write.
-  destruct (pw_loop_N (pw_fuel s) s HP Hi ltac:(intros X; congruence)) as (A1 & A2 & A3 & A4).
+  destruct (pw_loop_N (pw_fuel s) s HP Hi ltac:(intros X; congruence)) as (A1 & A2 & A3).
   destruct (pw_loop c nested (pw_fuel s) s) as [s1 rc]. cbn [fst snd] in *.
   assert (B : let r2 := (if rc =? E_AGAIN then (s1, 0) else if rc >? 0 then loop_rc_handle c nested rc s1 else (s1, 0)) in
-              Pre true (fst r2) /\ incb (fst r2) = false /\ (nf = true -> snd r2 = 0)).
-  { destruct (rc =? E_AGAIN); [cbn [fst snd]; auto|].
-    destruct (rc >? 0) eqn:Eg; [|cbn [fst snd]; auto].
+              Pre true (fst r2) /\ incb (fst r2) = false).
+  { destruct (rc =? E_AGAIN); [cbn [fst]; auto|].
+    destruct (rc >? 0) eqn:Eg; [|cbn [fst]; auto].
     assert (Hg : rc > 0) by lia. destruct (sock s1) as [id1|] eqn:Es1; [|exfalso; apply (A3 Hg); reflexivity].
-    destruct (loop_rc_handle_N rc id1 s1 A1 Es1 A2 Hg) as (C1 & C2).
-    split; [exact C1|]. split; [exact C2|]. intros X. specialize (A4 X). lia. }
+    exact (loop_rc_handle_N rc id1 s1 A1 Es1 A2 Hg). }
   destruct (if rc =? E_AGAIN then (s1, 0) else if rc >? 0 then loop_rc_handle c nested rc s1 else (s1, 0)) as [s2 rc2].
-  cbn [fst snd] in *. destruct B as (B1 & B2 & B3).
+  cbn [fst snd] in *. destruct B as (B1 & B2).
   destruct (want_write s2).
-  - destruct (call_regw_N s2 B1) as (C1 & C2 & _). split; [exact C1|]. split; [congruence|]. intros X _. apply B3. exact X.
-  - destruct (call_unregw_N s2 B1) as (C1 & C2). split; [exact C1|]. split; [congruence|]. intros X _. apply B3. exact X.
+  - destruct (call_regw_N s2 B1) as (C1 & C2 & _). split; [exact C1|congruence].
+  - destruct (call_unregw_N s2 B1) as (C1 & C2). split; [exact C1|congruence].
 Qed.
 
-(* _packet_queue; the caller shows that the invariant holds with the packet appended *)
-Lemma packet_queue_N k s : Pre true (set_outq (outq s ++ [mkQ k false]) s) -> sock s <> None ->
+Lemma packet_queue_N k s : Pre true (queued k s) ->
   let r := packet_queue c nested k s in
-  Pre true (fst r) /\ incb (fst r) = incb s /\ (NW c s -> sock (fst r) = sock s) /\
-  (c_ext c = true \/ nf = true -> snd r = 0).
+  Pre true (fst r) /\ incb (fst r) = incb s /\ (NW c s -> quiet_rel (queued k s) (fst r)).
 Proof.
-  intros HP Hs. unfold packet_queue.
-  set (s1 := set_outq (outq s ++ [mkQ k false]) s) in *.
-  destruct (negb (c_ext c) && negb (incb s1)) eqn:E.
-  - apply andb_true_iff in E as [E1 E2]. apply negb_true_iff in E1, E2.
-    destruct (loop_write_N s1 HP E2) as (A1 & A2 & A3).
-    split; [exact A1|]. split; [rewrite A2; symmetry; exact E2|]. split.
-    + intros [X|X]; [congruence|]. unfold s1 in E2. ssimpl. congruence.
-    + intros [X|X]; [congruence|]. apply A3; [exact X|exact Hs].
-  - cbn [fst snd]. destruct (call_regw_N s1 HP) as (A1 & A2 & A3).
-    split; [exact A1|]. split; [exact A2|]. split; [|reflexivity].
-    intros _. rewrite (qr_sock _ _ A3). reflexivity.
+  intros HP. destruct (negb (c_ext c) && negb (incb s)) eqn:E.
+  - unfold packet_queue. fold (queued k s).
+    assert (E' : negb (c_ext c) && negb (incb (queued k s)) = true) by exact E. rewrite E'.
+    apply andb_true_iff in E as [E1 E2]. apply negb_true_iff in E1, E2.
+    destruct (loop_write_N (queued k s) HP E2) as (A1 & A2).
+    split; [exact A1|]. split; [rewrite A2; symmetry; exact E2|].
+    intros [X|X]; congruence.
+  - assert (Hnw : NW c s).
+    { apply andb_false_iff in E as [E|E]; apply negb_false_iff in E; [left|right]; exact E. }
+    destruct (packet_queue_Q k s Hnw HP) as (A1 & A2 & A3). auto.
 Qed.
+Lemma PQspec_top : PQspec (fun _ => True).
+Proof. intros s _ HP _. apply packet_queue_N. exact HP. Qed.
 
-Lemma V_nosock_outq w s k q : sock s = None -> V w s k -> w = true -> V true (set_outq q s) k.
-Proof.
-  intros Hs HV ->. destruct HV as [ok1 ok2 ok3 cur1 cur2 cur3 conn owed credit disc qdisc wire new].
-  constructor; ssimpl; try assumption; try congruence.
-Qed.
-
-(* the body of reconnect() *)
 Lemma reconnect_body_N ok s : Pre true s ->
-  let r := reconnect_body c nested ok s in
-  Pre true (fst r) /\ incb (fst r) = incb s /\ (NW c s -> Rel s (fst r)) /\
-  (c_ext c = true \/ nf = true -> snd r = Some 0 \/ snd r = None).
+  let r := reconnect_body c nested ok s in Pre true (fst r) /\ incb (fst r) = incb s.
 Proof.
-  intros (HV & HS & HF). unfold reconnect_body.
-  set (s1 := set_cs CsConnecting (set_ping false s)).
-  (* after _sock_close: no socket, state CONNECTING *)
-  assert (C1 : let s2 := sock_close c nested RReplaced s1 in
-               V true s2 (KS10 s2) /\ sock s2 = None /\ cs s2 = CsConnecting /\ incb s2 = incb s /\
-               sched s2 = sched s /\ scr_ok (scr s2) = true).
-  { destruct (sock s) as [id|] eqn:Es.
-    - destruct (sock_close_char RReplaced id s1 Es HS) as (A1 & A2 & A3 & A4 & A5 & A6 & A7 & A8 & A9 & A10 & A11).
-      split; [|repeat split; assumption].
-      rewrite A1. rewrite (KS_frame _ _ s s1) by reflexivity.
-      eapply V_end_replaced; [exact HV|exact Es|exact A2|]. unfold is_connected. rewrite A3. reflexivity.
-    - unfold sock_close. assert (E : sock s1 = None) by exact Es. rewrite E.
-      split; [|repeat split; try assumption; reflexivity].
-      rewrite (KS_frame _ _ s s1) by reflexivity.
-      destruct HV as [ok1 ok2 ok3 cur1 cur2 cur3 conn owed credit disc qdisc wire new].
-      apply V_nosock; try assumption; try reflexivity; try congruence. }
-  set (s2 := sock_close c nested RReplaced s1) in *.
-  destruct C1 as (V2 & S2 & CS2 & I2 & SC2 & HS2).
-  set (s3 := set_outq [] s2).
-  assert (V3 : V true s3 (KS10 s3)).
-  { rewrite (KS_frame _ _ s2 s3) by reflexivity. apply (V_nosock_outq true s2 _ [] S2 V2 eq_refl). }
-  destruct ok; cbn [negb].
-  2:{ cbn [fst snd]. split; [|split; [ssimpl; exact I2|split; [|intros _; right; reflexivity]]].
-      - apply Pre_emit; [reflexivity|]. split; [exact V3|]. split; [exact HS2|].
-        unfold nofail in *. unfold s3. ssimpl. rewrite SC2. exact HF.
-      - intros _ _. right. reflexivity. }
-  set (id := nsock s3 + 1).
-  set (s4 := emit (SockNew id) (set_regw false (set_sock (Some id) (set_nsock id s3)))).
-  assert (P4 : Pre false s4).
-  { split; [|split; [exact HS2|unfold nofail in *; unfold s4, s3; ssimpl; rewrite SC2; exact HF]].
-    unfold s4. rewrite KS_emit. rewrite (KS_frame _ _ s3 (set_regw false (set_sock (Some id) (set_nsock id s3)))) by reflexivity.
-    eapply V_sock_new; [exact V3|exact S2|reflexivity|ssimpl; exact CS2|reflexivity]. }
-  assert (C5 : let s5 := (if c_sockcb c then run_site nested SiOpen false (SockOpen id) s4 else s4) in
-               Pre false s5 /\ incb s5 = incb s /\ sock s5 = Some id).
-  { destruct (c_sockcb c).
-    - destruct (run_site_open (SockOpen id) s4) as (A1 & A2 & A3 & A4 & A5); [apply Pre_emit; [reflexivity|exact P4]|].
-      split; [exact A1|]. split; [rewrite A2; unfold s4; ssimpl; exact I2|rewrite A3; reflexivity].
-    - split; [exact P4|]. split; [unfold s4; ssimpl; exact I2|reflexivity]. }
-  set (s5 := if c_sockcb c then run_site nested SiOpen false (SockOpen id) s4 else s4) in *.
-  destruct C5 as (P5 & I5 & S5).
-  assert (P5' : Pre true (set_outq (outq s5 ++ [mkQ KConnect false]) s5)).
-  { destruct P5 as (X1 & X2 & X3). split; [|split; [exact X2|exact X3]].
-    rewrite (KS_frame _ _ s5 (set_outq (outq s5 ++ [mkQ KConnect false]) s5)) by reflexivity.
-    apply V_append_connect. exact X1. }
-  destruct (packet_queue_N KConnect s5 P5' ltac:(congruence)) as (A1 & A2 & A3 & A4).
-  destruct (packet_queue c nested KConnect s5) as [s6 rc]. cbn [fst snd] in *.
-  split; [exact A1|]. split; [congruence|]. split.
-  - intros Hnw X. exfalso.
-    assert (Hnw5 : NW c s5) by (destruct Hnw as [Y|Y]; [left; exact Y|right; congruence]).
-    rewrite (A3 Hnw5) in X. congruence.
-  - intros X. left. rewrite (A4 X). reflexivity.
-Qed.
-
-Lemma api_reconnect_N ok s : Pre true s ->
-  let r := api_reconnect c nested ok s in
-  Pre true (fst r) /\ incb (fst r) = incb s /\ (NW c s -> Rel s (fst r)) /\
-  (c_ext c = true \/ nf = true -> snd r = Some 0 \/ snd r = None).
-Proof.
-  intros HP. unfold api_reconnect.
-  destruct (reconnect_body_N ok (emit (Call CReconnect) s)) as (A1 & A2 & A3 & A4); [apply Pre_emit; [reflexivity|exact HP]|].
-  split; [exact A1|]. split; [exact A2|]. split; [|exact A4].
-  intros X. eapply Rel_frame with (s1' := emit (Call CReconnect) s); try reflexivity. apply A3. exact X.
+  intros (HV & HS).
+  destruct (reconnect_body_G (fun _ => True) ok s PQspec_top (fun _ _ _ _ => I) I HS (or_introl HV)) as (A1 & A2 & _).
+  auto.
 Qed.
 
 Lemma api_send_N ck k s : Pre true s -> inert10 (Call ck) = true -> is_connect k = false -> is_disconnect k = false ->
-  let r := api_send c nested ck k s in
-  Pre true (fst r) /\ incb (fst r) = incb s /\ (NW c s -> Rel s (fst r)).
+  let r := api_send c nested ck k s in Pre true (fst r) /\ incb (fst r) = incb s.
 Proof.
   intros HP Hck Hk Hkd. unfold api_send. ssimpl.
   assert (HP1 : Pre true (emit (Call ck) s)) by (apply Pre_emit; assumption).
-  destruct (sock s) as [id|] eqn:Es; cbn [fst].
-  2:{ split; [exact HP1|]. split; [reflexivity|]. intros _ X. left. split; [exact Es|reflexivity]. }
-  destruct (packet_queue_N k (emit (Call ck) s)) as (A1 & A2 & A3 & _).
-  - destruct HP1 as (X1 & X2 & X3). split; [|split; [exact X2|exact X3]].
-    rewrite (KS_frame _ _ (emit (Call ck) s) (set_outq (outq (emit (Call ck) s) ++ [mkQ k false]) (emit (Call ck) s))) by reflexivity.
-    apply V_append; [exact X1|exact Hk|rewrite Hkd; discriminate].
-  - ssimpl. congruence.
-  - split; [exact A1|]. split; [exact A2|]. intros Hnw X. exfalso. rewrite (A3 Hnw) in X. ssimpl. congruence.
+  destruct (sock s) as [id|] eqn:Es; cbn [fst]; [|auto].
+  destruct (packet_queue_N k (emit (Call ck) s)) as (A1 & A2 & _); [|auto].
+  destruct HP1 as (X1 & X2). split; [|exact X2].
+  rewrite (KS_frame _ _ (emit (Call ck) s) (queued k (emit (Call ck) s))) by reflexivity.
+  unfold queued. assert (Em : (match k with KConnect => mkQ k false :: outq (emit (Call ck) s) | _ => outq (emit (Call ck) s) ++ [mkQ k false] end)
+                               = outq (emit (Call ck) s) ++ [mkQ k false]) by (destruct k; try discriminate Hk; reflexivity).
+  rewrite Em. apply V_append; [exact X1|exact Hk|rewrite Hkd; discriminate].
 Qed.
 
 Lemma api_disconnect_N s : Pre true s ->
-  let r := api_disconnect c nested s in
-  Pre true (fst r) /\ incb (fst r) = incb s /\ (NW c s -> Rel s (fst r)).
+  let r := api_disconnect c nested s in Pre true (fst r) /\ incb (fst r) = incb s.
 Proof.
-  intros (HV & HS & HF). unfold api_disconnect. ssimpl.
+  intros (HV & HS). unfold api_disconnect. ssimpl.
   destruct (sock s) as [id|] eqn:Es; cbn [fst].
   - set (s1 := set_cs CsDisconnecting (emit (Call CDisconnect) s)).
     assert (V1 : V true s1 (KS10 s1)).
     { unfold s1. rewrite (KS_frame _ _ (emit (Call CDisconnect) s) (set_cs CsDisconnecting (emit (Call CDisconnect) s))) by reflexivity.
       rewrite KS_emit. apply V_frame with (s := set_cs CsDisconnecting s); try reflexivity.
       eapply V_call_disc_some; eassumption. }
-    destruct (packet_queue_N KDisconnect s1) as (A1 & A2 & A3 & _).
-    + split; [|split; [exact HS|exact HF]].
-      rewrite (KS_frame _ _ s1 (set_outq (outq s1 ++ [mkQ KDisconnect false]) s1)) by reflexivity.
-      apply V_append; [exact V1|reflexivity|intros _ _; reflexivity].
-    + unfold s1. ssimpl. congruence.
-    + split; [exact A1|]. split; [exact A2|]. intros Hnw X. exfalso. rewrite (A3 Hnw) in X. unfold s1 in X. ssimpl. congruence.
-  - split; [|split; [reflexivity|intros _ X; left; split; [exact Es|reflexivity]]].
-    split; [|split; [exact HS|exact HF]].
+    destruct (packet_queue_N KDisconnect s1) as (A1 & A2 & _); [|auto].
+    split; [|exact HS]. rewrite (KS_frame _ _ s1 (queued KDisconnect s1)) by reflexivity.
+    unfold queued. apply V_append; [exact V1|reflexivity|intros _ _; reflexivity].
+  - split; [|reflexivity]. split; [|exact HS].
     rewrite (KS_frame _ _ (emit (Call CDisconnect) s) (set_cs CsDisconnected (emit (Call CDisconnect) s))) by reflexivity.
     rewrite KS_emit. apply V_frame with (s := set_cs CsDisconnected s); try reflexivity.
     apply V_call_disc_none; assumption.
 Qed.
 
-Lemma api_nested_N a s : NW c s -> Pre true s ->
-  let s' := api_nested c nested a s in Pre true s' /\ incb s' = incb s /\ Rel s s'.
+Lemma api_connect_N ok s : Pre true s ->
+  let r := api_connect c nested ok s in Pre true (fst r) /\ incb (fst r) = incb s.
 Proof.
-  intros Hnw HP. destruct a; cbn [api_nested].
-  - destruct (api_send_N CPublish KPublish0 s HP eq_refl eq_refl eq_refl) as (A1 & A2 & A3). auto.
-  - destruct (api_send_N CSubscribe KSubscribe s HP eq_refl eq_refl eq_refl) as (A1 & A2 & A3). auto.
-  - destruct (api_disconnect_N s HP) as (A1 & A2 & A3). auto.
-  - destruct (api_reconnect_N ok s HP) as (A1 & A2 & A3 & _). auto.
-Qed.
-
-Lemma exec_script_N : forall sc s, NW c s -> Pre true s ->
-  let s' := exec_script c nested sc s in Pre true s' /\ incb s' = incb s /\ Rel s s'.
-Proof.
-  unfold exec_script. induction sc as [|a sc IH]; intros s Hnw HP; cbn [fold_left].
-  - split; [exact HP|]. split; [reflexivity|apply Rel_refl].
-  - destruct (api_nested_N a s Hnw HP) as (A1 & A2 & A3).
-    assert (Hnw' : NW c (api_nested c nested a s)) by (destruct Hnw as [X|X]; [left; exact X|right; congruence]).
-    destruct (IH _ Hnw' A1) as (B1 & B2 & B3).
-    split; [exact B1|]. split; [congruence|]. eapply Rel_trans; eassumption.
-Qed.
-
-(* a callback whose script does not call reconnect() leaves the socket in place *)
-Lemma run_site_sock si ev s : incb s = false ->
-  script_noreconn (fst (pop_script si (obs (WCb si) (emit ev s)))) = true -> scr_ok (scr s) = true ->
-  sock (run_site nested si true ev s) = sock s.
-Proof.
-  intros Hi Hsc HS. unfold run_site. rewrite Hi. cbn [andb].
-  pose proof (pop_script_frame si (obs (WCb si) (emit ev s))) as F.
-  pose proof (scr_ok_pop si (obs (WCb si) (emit ev s)) HS) as HS2.
-  destruct (pop_script si (obs (WCb si) (emit ev s))) as [sc s2]. cbn [fst snd] in *.
-  destruct F as (Fcs & Fsock & Fregw & Foutq & Fping & Fincb & Fproto & Fnsock & Fsched & Ftr).
-  destruct sc as [|a sc]; [exact Fsock|]. gsimpl.
-  rewrite (qr_sock _ _ (Hq (a :: sc) (set_incb (true || incb s2) s2) (or_intror eq_refl) Hsc (scr_ok_regw _ HS2))).
-  gsimpl. exact Fsock.
-Qed.
-
-Lemma pop_connect_noreconn s : queue_noreconn (q_connect (scr s)) = true ->
-  script_noreconn (fst (pop_script SiConnect s)) = true.
-Proof.
-  intros H. unfold pop_script. pose proof (pop_list_noreconn _ H) as [X _].
-  destruct (pop_list (q_connect (scr s))). exact X.
+  intros HP. unfold api_connect.
+  set (s0 := emit (Call CConnect) s).
+  assert (HP0 : Pre true s0) by (apply Pre_emit; [reflexivity|exact HP]).
+  destruct HP0 as (HV & HS).
+  assert (C2 : let s2 := set_cs CsConnectAsync (sock_close c nested RReplaced s0) in Pre true s2 /\ incb s2 = incb s).
+  { destruct (sock s0) as [id|] eqn:Es.
+    - destruct (sock_close_char RReplaced id s0 Es HS (or_introl eq_refl)) as (A1 & A2 & A3 & A4 & A5 & A6 & A7 & A8 & A9 & A10 & A11).
+      split; [|ssimpl; rewrite A5; reflexivity].
+      split; [|ssimpl; exact A11].
+      rewrite (KS_frame _ _ (sock_close c nested RReplaced s0) (set_cs CsConnectAsync (sock_close c nested RReplaced s0))) by reflexivity.
+      rewrite A1. eapply V_end_replaced; [exact HV|exact Es|ssimpl; exact A2|reflexivity].
+    - unfold sock_close. rewrite Es. split; [|reflexivity].
+      split; [|exact HS].
+      rewrite (KS_frame _ _ s0 (set_cs CsConnectAsync s0)) by reflexivity. dV HV.
+      apply V_nosock; try assumption; try reflexivity; try congruence. }
+  destruct C2 as (P2 & I2).
+  destruct (reconnect_body_N ok _ P2) as (A1 & A2).
+  split; [exact A1|congruence].
 Qed.
 
 Lemma handle_connack_N rc id s : Pre true s -> sock s = Some id -> incb s = false ->
-  (rc = 0 -> disc_state s = false) -> (rc <> 0 -> queue_noreconn (q_connect (scr s)) = true) ->
-  let s' := fst (handle_connack nested rc s) in
-  Pre true s' /\ incb s' = false /\ (rc <> 0 -> sock s' = Some id).
+  let s' := fst (handle_connack nested rc s) in Pre true s' /\ incb s' = false.
 Proof.
-  intros (HV & HS & HF) Hs Hi Hd Hc. unfold handle_connack. cbn [fst].
-  set (s1 := if rc =? 0 then set_cs CsConnected s else s).
-  assert (F1 : sock s1 = sock s /\ incb s1 = incb s /\ scr s1 = scr s /\ sched s1 = sched s /\ tr s1 = tr s).
-  { unfold s1. destruct (rc =? 0); repeat split. }
-  destruct F1 as (F1 & F2 & F3 & F4 & F5).
-  assert (HP1 : Pre true (emit (CbConnect rc) s1)).
-  { split; [|split; [ssimpl; rewrite F3; exact HS|unfold nofail in *; ssimpl; rewrite F4; exact HF]].
-    rewrite KS_emit, (KS_frame _ _ _ _ F5). apply V_frame with (s := s1); try reflexivity.
-    apply V_cb_connect; [exact HV|congruence|exact Hd]. }
-  destruct (run_site_N SiConnect true (CbConnect rc) s1) as (A1 & A2 & _); [intros _; congruence|discriminate|exact HP1|].
-  split; [exact A1|]. split; [congruence|].
-  intros Hr. rewrite run_site_sock; [congruence|congruence| |rewrite F3; exact HS].
-  apply pop_connect_noreconn. unfold obs. ssimpl. rewrite F3. apply Hc. exact Hr.
+  intros (HV & HS) Hs Hi. unfold handle_connack. cbn [fst]. fold (connack_state rc s).
+  assert (F : sock (connack_state rc s) = sock s /\ incb (connack_state rc s) = incb s /\
+              scr (connack_state rc s) = scr s /\ tr (connack_state rc s) = tr s).
+  { unfold connack_state. destruct (rc =? 0); [destruct (cs s)|]; repeat split. }
+  destruct F as (F1 & F2 & F3 & F5).
+  assert (HP1 : Pre true (emit (CbConnect rc) (connack_state rc s))).
+  { split; [|ssimpl; rewrite F3; exact HS].
+    rewrite KS_emit, (KS_frame _ _ _ _ F5). apply V_frame with (s := connack_state rc s); try reflexivity.
+    apply V_cb_connect; [exact HV|congruence]. }
+  destruct (run_site_N SiConnect true (CbConnect rc) (connack_state rc s)) as (A1 & A2 & _);
+    [intros _; congruence|discriminate|exact HP1|].
+  split; [exact A1|congruence].
 Qed.
 
-Lemma after_read_rc0 s : after_read c nested (s, Some 0) = (s, Some 0).
-Proof. reflexivity. Qed.
-
-Lemma after_read_N rc id s : Pre true s -> sock s = Some id -> incb s = false -> rc >= 0 ->
+Lemma after_read_N rc s : Pre true s -> incb s = false -> rc >= 0 ->
   let s' := fst (after_read c nested (s, Some rc)) in Pre true s' /\ incb s' = false.
 Proof.
-  intros HP Hs Hi Hrc. cbn [after_read]. destruct (rc >? 0) eqn:E; [|cbn [fst]; auto].
-  destruct (loop_rc_handle_N rc id s HP Hs Hi ltac:(lia)) as (A1 & A2).
+  intros HP Hi Hrc. cbn [after_read]. destruct (rc >? 0) eqn:E; [|cbn [fst]; auto].
+  destruct (sock s) as [id|] eqn:Es; [|cbn [fst]; auto].
+  destruct (loop_rc_handle_N rc id s HP Es Hi ltac:(lia)) as (A1 & A2).
   destruct (loop_rc_handle c nested rc s). exact (conj A1 A2).
 Qed.
 
-Section Read.
-Hypothesis Hrc0 : c_ext c = true \/ nf = true.
-
-Lemma downgrade_N ok s : Pre true s -> incb s = false ->
-  let s' := fst (after_read c nested (downgrade c nested ok s)) in Pre true s' /\ incb s' = false.
+Lemma after_read_opt r : Pre true (fst r) -> incb (fst r) = false -> (forall rc, snd r = Some rc -> rc >= 0) ->
+  let s' := fst (after_read c nested r) in Pre true s' /\ incb s' = false.
 Proof.
-  intros HP Hi. unfold downgrade.
-  destruct (reconnect_body_N ok (set_proto 3 s)) as (A1 & A2 & _ & A4).
-  { eapply Pre_frame; [| | | | | |exact HP]; reflexivity. }
-  destruct (reconnect_body c nested ok (set_proto 3 s)) as [s1 r]. cbn [fst snd] in *.
-  ssimpl. destruct (A4 Hrc0) as [-> | ->]; [rewrite after_read_rc0|cbn [after_read]]; cbn [fst]; (split; [exact A1|congruence]).
+  destruct r as [s [rc|]]; cbn [fst snd]; intros HP Hi Hrc; [apply after_read_N; auto|cbn [after_read fst]; auto].
 Qed.
 
 Lemma connack_err_pos rc : connack_err rc > 0.
 Proof. unfold connack_err, E_CONN_REFUSED, E_PROTOCOL. destruct ((0 <? rc) && (rc <? 6)); lia. Qed.
 
+(* result codes of the write paths are never below -1; all that matters here: a non-negative or any code is
+   handled by after_read the same way when rc <= 0 *)
+Lemma after_read_any rc s : Pre true s -> incb s = false ->
+  let s' := fst (after_read c nested (s, Some rc)) in Pre true s' /\ incb s' = false.
+Proof.
+  intros HP Hi. cbn [after_read]. destruct (rc >? 0) eqn:E; [|cbn [fst]; auto].
+  destruct (sock s) as [id|] eqn:Es; [|cbn [fst]; auto].
+  destruct (loop_rc_handle_N rc id s HP Es Hi ltac:(lia)) as (A1 & A2).
+  destruct (loop_rc_handle c nested rc s). exact (conj A1 A2).
+Qed.
+
+Lemma downgrade_N ok s : Pre true s -> incb s = false ->
+  let s' := fst (after_read c nested (downgrade c nested ok s)) in Pre true s' /\ incb s' = false.
+Proof.
+  intros HP Hi. unfold downgrade.
+  destruct (reconnect_body_N ok (set_proto 3 s)) as (A1 & A2).
+  { eapply Pre_frame; [| | | | | |exact HP]; reflexivity. }
+  destruct (reconnect_body c nested ok (set_proto 3 s)) as [s1 [rc|]]; cbn [fst] in *.
+  - apply after_read_any; [exact A1|ssimpl; congruence].
+  - cbn [after_read fst]. split; [exact A1|ssimpl; congruence].
+Qed.
+
 Lemma loop_read_N i s : Pre true s -> incb s = false ->
-  (accepting (TLoopRead i) = true -> disc_state s = false) ->
-  (refusing s (TLoopRead i) = true -> queue_noreconn (q_connect (scr s)) = true) ->
   let s' := fst (loop_read c nested i s) in Pre true s' /\ incb s' = false.
 Proof.
-  intros HP Hi He Hc. unfold loop_read. destruct (sock s) as [id|] eqn:Es; [|cbn [fst]; auto].
-  assert (Hack : forall rc, (rc = 0 -> disc_state s = false) -> (rc <> 0 -> queue_noreconn (q_connect (scr s)) = true) ->
-            let s' := fst (after_read c nested (handle_connack nested rc s)) in Pre true s' /\ incb s' = false).
-  { intros rc H1 H2. destruct (handle_connack_N rc id s HP Es Hi H1 H2) as (A1 & A2 & A3).
-    unfold handle_connack in *. cbn [fst] in *.
-    destruct (rc =? 0) eqn:E0.
-    - cbn [after_read fst]. auto.
-    - assert (rc <> 0) by lia. apply after_read_N with (id := id); auto. pose proof (connack_err_pos rc). lia. }
+  intros HP Hi. unfold loop_read. destruct (sock s) as [id|] eqn:Es; [|cbn [fst]; auto].
+  assert (Hack : forall rc, let s' := fst (after_read c nested (handle_connack nested rc s)) in Pre true s' /\ incb s' = false).
+  { intros rc. destruct (handle_connack_N rc id s HP Es Hi) as (A1 & A2).
+    unfold handle_connack in *. cbn [fst] in *. apply after_read_any; assumption. }
   destruct i; cbn [fst]; auto.
-  - (* CONNACK *)
-    cbn [accepting refusing] in *.
-    destruct ((proto s =? 4) && (rc =? 1)) eqn:Ed; [apply downgrade_N; assumption|].
-    apply Hack.
-    + intros ->. apply He. reflexivity.
-    + intros X. apply Hc. rewrite ?Ed. cbn [negb]. rewrite andb_true_r. apply negb_true_iff. lia.
-  - (* CONNACK refusing the protocol version *)
-    cbn [refusing] in *. destruct (proto s =? 4) eqn:Ep; [apply downgrade_N; assumption|].
-    apply Hack; [intros; lia|]. intros _. apply Hc. reflexivity.
-  - (* DISCONNECT from the broker *)
-    destruct (proto s =? 5).
+  - destruct ((proto s =? 4) && (rc =? 1)); [apply downgrade_N; assumption|apply Hack].
+  - destruct (proto s =? 4); [apply downgrade_N; assumption|apply Hack].
+  - destruct (proto s =? 5).
     + unfold handle_server_disconnect.
-      destruct (close_lost RServerDisc rc true id s HP Es Hi eq_refl ltac:(discriminate)) as (A1 & A2).
-      destruct (lost_tail nested rc true (sock_close c nested RServerDisc s)). exact (conj A1 A2).
-    + apply after_read_N with (id := id); auto. unfold E_PROTOCOL. lia.
-  - apply after_read_N with (id := id); auto. unfold E_PROTOCOL. lia.
-  - apply after_read_N with (id := id); auto. unfold E_CONN_LOST. lia.
-  - apply after_read_N with (id := id); auto. unfold E_CONN_LOST. lia.
-  - (* a packet that is answered *)
-    destruct (packet_queue_N KOther s) as (A1 & A2 & _ & A4).
-    + destruct HP as (X1 & X2 & X3). split; [|split; [exact X2|exact X3]].
-      rewrite (KS_frame _ _ s (set_outq (outq s ++ [mkQ KOther false]) s)) by reflexivity.
-      apply V_append; [exact X1|reflexivity|discriminate].
-    + congruence.
+      destruct (lost_N RServerDisc rc true id s HP Es Hi eq_refl ltac:(discriminate)) as (A1 & A2).
+      destruct (lost c nested RServerDisc rc true s). exact (conj A1 A2).
+    + apply after_read_any; assumption.
+  - apply after_read_any; assumption.
+  - apply after_read_any; assumption.
+  - apply after_read_any; assumption.
+  - destruct (packet_queue_N KOther s) as (A1 & A2 & _).
+    + destruct HP as (X1 & X2). split; [|exact X2].
+      rewrite (KS_frame _ _ s (queued KOther s)) by reflexivity.
+      unfold queued. apply V_append; [exact X1|reflexivity|discriminate].
     + destruct (packet_queue c nested KOther s) as [s1 rc]. cbn [fst snd] in *.
-      rewrite (A4 Hrc0). rewrite after_read_rc0. cbn [fst]. split; [exact A1|congruence].
+      apply after_read_any; [exact A1|congruence].
   - split; [|exact Hi]. eapply Pre_frame; [| | | | | |exact HP]; reflexivity.
 Qed.
-End Read.
 
 Lemma check_keepalive_N m s : Pre true s -> incb s = false ->
   let s' := check_keepalive c nested m s in Pre true s' /\ incb s' = false.
@@ -789,11 +888,10 @@ Proof.
   intros HP Hi. unfold check_keepalive. destruct m; auto.
   destruct (sock s) as [id|] eqn:Es; auto.
   destruct (is_connected s && negb (ping s)); [|apply keepalive_close_N with (id := id); assumption].
-  destruct (packet_queue_N KPingreq s) as (A1 & A2 & _ & _).
-  - destruct HP as (X1 & X2 & X3). split; [|split; [exact X2|exact X3]].
-    rewrite (KS_frame _ _ s (set_outq (outq s ++ [mkQ KPingreq false]) s)) by reflexivity.
-    apply V_append; [exact X1|reflexivity|discriminate].
-  - congruence.
+  destruct (packet_queue_N KPingreq s) as (A1 & A2 & _).
+  - destruct HP as (X1 & X2). split; [|exact X2].
+    rewrite (KS_frame _ _ s (queued KPingreq s)) by reflexivity.
+    unfold queued. apply V_append; [exact X1|reflexivity|discriminate].
   - destruct (packet_queue c nested KPingreq s) as [s1 rc]. cbn [fst] in *.
     destruct (rc =? 0); [|split; [exact A1|congruence]].
     split; [|ssimpl; congruence]. eapply Pre_frame; [| | | | | |exact A1]; reflexivity.
@@ -810,41 +908,29 @@ Proof.
   apply keepalive_close_N with (id := id); assumption.
 Qed.
 
-Lemma api_connect_N ok s : Pre true s ->
-  let r := api_connect c nested ok s in Pre true (fst r) /\ incb (fst r) = incb s.
-Proof.
-  intros HP. unfold api_connect.
-  set (s0 := emit (Call CConnect) s).
-  assert (HP0 : Pre true s0) by (apply Pre_emit; [reflexivity|exact HP]).
-  destruct HP0 as (HV & HS & HF).
-  assert (C2 : let s2 := set_cs CsConnectAsync (sock_close c nested RReplaced s0) in
-               Pre true s2 /\ incb s2 = incb s).
-  { destruct (sock s0) as [id|] eqn:Es.
-    - destruct (sock_close_char RReplaced id s0 Es HS) as (A1 & A2 & A3 & A4 & A5 & A6 & A7 & A8 & A9 & A10 & A11).
-      split; [|ssimpl; rewrite A5; reflexivity].
-      split; [|split; [ssimpl; exact A11|unfold nofail in *; ssimpl; rewrite A6; exact HF]].
-      rewrite (KS_frame _ _ (sock_close c nested RReplaced s0) (set_cs CsConnectAsync (sock_close c nested RReplaced s0))) by reflexivity.
-      rewrite A1. eapply V_end_replaced; [exact HV|exact Es|ssimpl; exact A2|reflexivity].
-    - unfold sock_close. rewrite Es. split; [|reflexivity].
-      split; [|split; [exact HS|exact HF]].
-      rewrite (KS_frame _ _ s0 (set_cs CsConnectAsync s0)) by reflexivity.
-      destruct HV as [ok1 ok2 ok3 cur1 cur2 cur3 conn owed credit disc qdisc wire new].
-      apply V_nosock; try assumption; try reflexivity; try congruence. }
-  destruct C2 as (P2 & I2).
-  destruct (reconnect_body_N ok _ P2) as (A1 & A2 & _ & _).
-  split; [exact A1|congruence].
-Qed.
-
 End C10.
 
 (* ---- nesting depth ---- *)
-Lemma nested_at_N c k0 nf : forall d sc s, NW c s -> Pre k0 nf true s ->
-  Pre k0 nf true (nested_at c d sc s) /\ incb (nested_at c d sc s) = incb s /\ Rel s (nested_at c d sc s).
+Lemma nested_at_N c k0 : forall d sc s, NW c s -> Pre c k0 true s ->
+  Pre c k0 true (nested_at c d sc s) /\ incb (nested_at c d sc s) = incb s /\ Rel s (nested_at c d sc s) /\
+  SockRel s (nested_at c d sc s).
 Proof.
   induction d as [|d IH]; intros sc s Hnw HP; cbn [nested_at].
   - split; [apply Pre_emit; [reflexivity|exact HP]|]. split; [reflexivity|].
-    intros X. left. split; [exact X|reflexivity].
+    split; [intros X; left; split; [exact X|reflexivity]|]. split; [ssimpl; lia|]. intros x X. left. exact X.
   - apply exec_script_N; try assumption.
+    + intros sc' s' A B D. apply nested_at_quiet; assumption.
+    + intros sc' s' A B. apply nested_at_teardown_ps; assumption.
+Qed.
+
+Lemma nested_at_C c k0 d sc s id : NW c s -> Vc id s (KS k10_ev k0 s) -> scr_ok (c_ext c) (scr s) = true ->
+  Cpost c k0 id s (nested_at c d sc s).
+Proof.
+  destruct d as [|d]; intros Hnw HV HS; cbn [nested_at].
+  - split; [reflexivity|]. split; [exact HS|left]. rewrite KS_emit, (k10_inert _ Fuel) by reflexivity.
+    dVc HV. constructor; assumption.
+  - apply exec_script_C; try assumption.
+    + apply nested_at_N.
     + intros sc' s' A B D. apply nested_at_quiet; assumption.
     + intros sc' s' A B. apply nested_at_teardown_ps; assumption.
 Qed.
@@ -854,52 +940,40 @@ Variable c : cfg.
 Variable k0 : k10.
 Variable d : nat.
 Notation nst := (nested_at c d).
-Let Hn nf := nested_at_N c k0 nf d.
+Let Hn := nested_at_N c k0 d.
 Let Hq := fun sc s (A : NW c s) B D => nested_at_quiet c d sc s A B D.
 Let Ht := fun sc s A B => nested_at_teardown_ps c d sc s A B.
+Let Hc := fun sc s id A B D => nested_at_C c k0 d sc s id A B D.
 
-Lemma run_top_N o s : c10_hyp c s o = true ->
-  let nf := negb (c_ext c) && is_read (o_call o) in
-  Pre k0 nf true s -> incb s = false -> scr s = o_scr o ->
-  let s' := run_top c nst (o_call o) s in Pre k0 nf true s' /\ incb s' = false.
+Lemma run_top_N t s : Pre c k0 true s -> incb s = false ->
+  let s' := run_top c nst t s in Pre c k0 true s' /\ incb s' = false.
 Proof.
-  intros Hh nf HP Hi Hscr. unfold c10_hyp in Hh. repeat (apply andb_true_iff in Hh as [Hh ?]).
-  rename H into HE, H0 into HF, H1 into HC.
-  destruct (o_call o) as [ok|ok| | | |i| |m] eqn:Eo; cbn [run_top].
-  - destruct (api_connect_N c k0 nf nst (Hn nf) Hq Ht ok s HP) as (A1 & A2).
+  intros HP Hi. destruct t as [ok|ok| | | |i| |m]; cbn [run_top].
+  - destruct (api_connect_N c k0 nst Hn Hq Ht Hc ok s HP) as (A1 & A2).
     destruct (api_connect c nst ok s) as [s1 [rc|]]; cbn [ret_of fst] in *; (split; [|ssimpl; congruence]);
       [apply Pre_emit; [reflexivity|exact A1]|exact A1].
-  - destruct (api_reconnect_N c k0 nf nst (Hn nf) Hq Ht ok s HP) as (A1 & A2 & _).
-    destruct (api_reconnect c nst ok s) as [s1 [rc|]]; cbn [ret_of fst] in *; (split; [|ssimpl; congruence]);
+  - assert (HP1 : Pre c k0 true (emit (Call CReconnect) s)) by (apply Pre_emit; [reflexivity|exact HP]).
+    destruct (reconnect_body_N c k0 nst Hn Hq Ht Hc ok _ HP1) as (A1 & A2). unfold api_reconnect.
+    destruct (reconnect_body c nst ok (emit (Call CReconnect) s)) as [s1 [rc|]]; cbn [ret_of fst] in *; (split; [|ssimpl; congruence]);
       [apply Pre_emit; [reflexivity|exact A1]|exact A1].
-  - destruct (api_disconnect_N c k0 nf nst (Hn nf) Hq Ht s HP) as (A1 & A2 & _).
+  - destruct (api_disconnect_N c k0 nst Hn Hq Ht Hc s HP) as (A1 & A2).
     destruct (api_disconnect c nst s) as [s1 rc]. cbn [fst] in *. split; [|ssimpl; congruence].
     apply Pre_emit; [reflexivity|exact A1].
-  - destruct (api_send_N c k0 nf nst (Hn nf) Hq Ht CPublish KPublish0 s HP eq_refl eq_refl eq_refl) as (A1 & A2 & _).
+  - destruct (api_send_N c k0 nst Hn Hq Ht Hc CPublish KPublish0 s HP eq_refl eq_refl eq_refl) as (A1 & A2).
     destruct (api_send c nst CPublish KPublish0 s) as [s1 rc]. cbn [fst] in *. split; [|ssimpl; congruence].
     apply Pre_emit; [reflexivity|exact A1].
-  - destruct (api_send_N c k0 nf nst (Hn nf) Hq Ht CSubscribe KSubscribe s HP eq_refl eq_refl eq_refl) as (A1 & A2 & _).
+  - destruct (api_send_N c k0 nst Hn Hq Ht Hc CSubscribe KSubscribe s HP eq_refl eq_refl eq_refl) as (A1 & A2).
     destruct (api_send c nst CSubscribe KSubscribe s) as [s1 rc]. cbn [fst] in *. split; [|ssimpl; congruence].
     apply Pre_emit; [reflexivity|exact A1].
-  - (* loop_read *)
-    assert (Hrc0 : c_ext c = true \/ nf = true).
-    { unfold nf. destruct (c_ext c); [left; reflexivity|right; reflexivity]. }
-    destruct (loop_read_N c k0 nf nst (Hn nf) Hq Ht Hrc0 i (emit (Call CLoopRead) s)) as (A1 & A2).
-    + apply Pre_emit; [reflexivity|exact HP].
-    + exact Hi.
-    + intros X. unfold excl_E in HE. rewrite Eo, X in HE. cbn [andb] in HE. apply negb_true_iff in HE.
-      unfold disc_state in *. ssimpl. exact HE.
-    + intros X. unfold excl_C in HC. rewrite Eo in HC.
-      assert (Y : refusing s (TLoopRead i) = true) by exact X. rewrite Y in HC. cbn [negb orb] in HC.
-      (* the scripts of this operation are those loaded in the state *)
-      ssimpl. rewrite Hscr. exact HC.
-    + destruct (loop_read c nst i (emit (Call CLoopRead) s)) as [s1 [rc|]]; cbn [ret_of fst] in *; (split; [|ssimpl; congruence]);
-        [apply Pre_emit; [reflexivity|exact A1]|exact A1].
-  - destruct (loop_write_N c k0 nf nst (Hn nf) Hq Ht (emit (Call CLoopWrite) s)) as (A1 & A2 & _);
+  - destruct (loop_read_N c k0 nst Hn Hq Ht Hc i (emit (Call CLoopRead) s)) as (A1 & A2);
+      [apply Pre_emit; [reflexivity|exact HP]|exact Hi|].
+    destruct (loop_read c nst i (emit (Call CLoopRead) s)) as [s1 [rc|]]; cbn [ret_of fst] in *; (split; [|ssimpl; congruence]);
+      [apply Pre_emit; [reflexivity|exact A1]|exact A1].
+  - destruct (loop_write_N c k0 nst Hn Hq Ht Hc (emit (Call CLoopWrite) s)) as (A1 & A2);
       [apply Pre_emit; [reflexivity|exact HP]|exact Hi|].
     destruct (loop_write c nst (emit (Call CLoopWrite) s)) as [s1 rc]. cbn [fst] in *. split; [|ssimpl; congruence].
     apply Pre_emit; [reflexivity|exact A1].
-  - destruct (loop_misc_N c k0 nf nst (Hn nf) Hq Ht m (emit (Call CLoopMisc) s)) as (A1 & A2);
+  - destruct (loop_misc_N c k0 nst Hn Hq Ht Hc m (emit (Call CLoopMisc) s)) as (A1 & A2);
       [apply Pre_emit; [reflexivity|exact HP]|exact Hi|].
     destruct (loop_misc c nst m (emit (Call CLoopMisc) s)) as [s1 rc]. cbn [fst] in *. split; [|ssimpl; congruence].
     apply Pre_emit; [reflexivity|exact A1].
@@ -910,60 +984,49 @@ End Top.
 Definition Top10 (s : st) (k : k10) : Prop := V true s k /\ incb s = false.
 
 Lemma Top10_ok s k : Top10 s k -> k10_okb k = true.
-Proof.
-  intros [HV _]. destruct HV as [ok1 ok2 ok3 cur1 cur2 cur3 conn owed credit disc qdisc wire new].
-  unfold k10_okb. rewrite ok1, ok2, ok3. reflexivity.
-Qed.
+Proof. intros [HV _]. dV HV. unfold k10_okb. rewrite ok1, ok2, ok3. reflexivity. Qed.
 
-Lemma scr_ok_of o : excl_D o = true -> excl_G o = true -> excl_R o = true -> scr_ok (o_scr o) = true.
+Lemma scr_ok_of c o : c10_hyp c o = true -> scr_ok (c_ext c) (o_scr o) = true.
 Proof.
-  unfold excl_D, excl_G, excl_R, scr_ok. intros A B C0.
+  unfold c10_hyp, excl_D, excl_R, scr_ok. intros H. apply andb_true_iff in H as [A C0].
   apply andb_true_iff in C0 as [C0 C3]. apply andb_true_iff in C0 as [C1 C2].
-  rewrite A, B, C1, C2, C3. reflexivity.
+  rewrite A, C1, C2, C3. reflexivity.
 Qed.
 
-Lemma Top10_step c s k o : Top10 s k -> c10_hyp c s o = true ->
+Lemma Top10_step c s k o : Top10 s k -> c10_hyp c o = true ->
   Top10 (fst (step c s o)) (k10_fin (fold_left k10_ev (snd (step c s o)) k)).
 Proof.
   intros [HV Hi] Hh. unfold step.
   set (s0 := set_incb false (set_sched (o_sched o) (set_scr (o_scr o)
                (mkSt (cs s) (sock s) (regw s) (outq s) (ping s) (incb s) (proto s) (nsock s) (sched s) (scr s) [])))).
-  set (nf := negb (c_ext c) && is_read (o_call o)).
-  assert (Hh0 : c10_hyp c s0 o = true) by exact Hh.
-  pose proof Hh as Hh'. unfold c10_hyp in Hh'. repeat (apply andb_true_iff in Hh' as [Hh' ?]).
-  assert (HP0 : Pre k nf true s0).
-  { split; [|split].
+  assert (HP0 : Pre c k true s0).
+  { split.
     - unfold KS, s0. cbn. apply V_frame with (s := s); try reflexivity. exact HV.
-    - apply scr_ok_of; assumption.
-    - unfold nofail, nf, s0. ssimpl. intros X. apply andb_true_iff in X as [X1 X2]. apply negb_true_iff in X1.
-      unfold excl_F in H0. rewrite X1, X2 in H0. cbn in H0. apply negb_true_iff in H0. exact H0. }
-  destruct (run_top_N c k (nscripts (o_scr o)) o s0 Hh0 HP0 eq_refl eq_refl) as (A1 & A2).
+    - apply scr_ok_of. exact Hh. }
+  destruct (run_top_N c k (nscripts (o_scr o)) (o_call o) s0 HP0 eq_refl) as (A1 & A2).
   set (s1 := run_top c (nested_at c (nscripts (o_scr o))) (o_call o) s0) in *.
   cbn [fst snd]. rewrite fold_left_rev_KS.
-  destruct A1 as (V1 & _ & _).
+  destruct A1 as (V1 & _).
   split; [|ssimpl; exact A2].
   unfold obs. rewrite KS_emit.
   pose proof (V_obs true WEnd s1 (KS k10_ev k s1) (want_write s1) (regw s1) V1) as V2.
   apply V_frame with (s := s1); try reflexivity.
-  destruct V2 as [ok1 ok2 ok3 cur1 cur2 cur3 conn owed credit disc qdisc wire new].
-  unfold k10_fin. constructor; cbn [b1 b2 b3 k2_fin k2_ok k2_cur k2_disc k2_owed k2_credit]; try assumption.
+  dV V2. unfold k10_fin. constructor; cbn [b1 b2 b3 k2_fin k2_ok k2_cur k2_disc k2_owed k2_credit]; try assumption.
   rewrite ok2, owed, credit. reflexivity.
 Qed.
 
 Lemma Top10_init c : Top10 (init c) k10_init.
-Proof.
-  split; [|reflexivity]. apply V_nosock; try reflexivity. intros; discriminate.
-Qed.
+Proof. split; [|reflexivity]. apply V_nosock; try reflexivity. intros X; discriminate X. Qed.
 
 Lemma c10_all c ops : c10_ops_ok c ops = true ->
   k10_okb (run_checker k10_ev k10_fin k10_init (optrace c ops)) = true.
 Proof.
   intros Hops. unfold optrace.
-  apply run_checker_inv with (hyp := c10_hyp c) (Top := Top10).
+  apply run_checker_inv with (hyp := fun _ o => c10_hyp c o) (Top := Top10).
   - apply Top10_ok.
   - intros s k o HT Hh. apply Top10_step; assumption.
   - apply Top10_init.
-  - exact Hops.
+  - apply hyp_from_static. exact Hops.
 Qed.
 
 Theorem c10_connected_proved : C10_connected_partial.
